@@ -10,6 +10,19 @@ on the Python call site (argument roles, point order, work-array storage, interp
 test) are three-valued: VIOLATED only for a recognised wrong form.  They are relational: both sides of an agreement
 (constructor and call site, interpolation destination and spline handed to the kernel, writer and reader of the
 per-plane potential splines) are extracted from the code and compared with each other, not with today's names.
+
+Soundness audit (pass 4): every place that can say VIOLATED carries an `AUDIT` comment with the assumptions under which
+the diagnosis is true of the code, and checks them (else UNDECIDED).  The main ones: the only observable of the explicit
+kernel is f, so its stage rules are subordinated to the end-to-end comparison (`check_explicit`); the implicit kernel's
+rules hold for the storage convention "the iterate is the only state carried between passes, in endPts_k1_*", which is
+read off the code (`_pass_conventions`), everything a pass writes being unknown at the start of a pass; constructs that
+the symbolic execution approximates are screened (`extraction_hazards`); atoms of conditions are identified up to
+positive factors and sign, and a foot exactly on the radial boundary is not a case (`_Atoms`, `_boundary_tie`); role
+tables apply only while the callee still has parameters of those names; "not found" (no iteration, no interpolation, no
+writer of the cached splines) is a verdict only when every place it could be has been looked at.  Normalisations added
+before extraction: whole-array constant fills and element-wise row statements become the loops they are, the axes of a
+sweep are read off its subscripts (loop interchange), max/min take any number of operands.  New rule E2-result-in-place:
+the array the kernel writes is the array object handed to step().
 """
 from __future__ import annotations
 
@@ -33,18 +46,33 @@ EXPL = "general_poloidal_advection_step_expl"
 IMPL = "general_poloidal_advection_step_impl"
 
 
-def _h_max(ex, call):
-    if len(call.args) != 2 or call.keywords:
+def _scalar_args(ex, call, fold_ok):
+    """the scalar operands of a builtin max/min call with two or more positional operands (numpy's maximum/minimum take
+    exactly two: a third positional is `out`)"""
+    if len(call.args) < 2 or call.keywords or any(isinstance(a, ast.Starred) for a in call.args) \
+            or (len(call.args) > 2 and not fold_ok):
         raise Undecided(f"call `{src(call)[:60]}`")
-    a, b = ex.ev(call.args[0]), ex.ev(call.args[1])
-    return ITE(sp.Gt(b, a), b, a)
+    vals = [ex.ev(a) for a in call.args]
+    if not all(isinstance(v, sp.Basic) for v in vals):
+        raise Undecided(f"call `{src(call)[:60]}` on non-scalar operands")
+    return vals
+
+
+def _h_max(ex, call):
+    """max(a, b, c, ...) = max(max(a, b), c): folded from the left (value-identical for real operands)"""
+    vals = _scalar_args(ex, call, isinstance(call.func, ast.Name) and call.func.id == "max")
+    out = vals[0]
+    for b in vals[1:]:
+        out = ITE(sp.Gt(b, out), b, out)
+    return out
 
 
 def _h_min(ex, call):
-    if len(call.args) != 2 or call.keywords:
-        raise Undecided(f"call `{src(call)[:60]}`")
-    a, b = ex.ev(call.args[0]), ex.ev(call.args[1])
-    return ITE(sp.Lt(b, a), b, a)
+    vals = _scalar_args(ex, call, isinstance(call.func, ast.Name) and call.func.id == "min")
+    out = vals[0]
+    for b in vals[1:]:
+        out = ITE(sp.Lt(b, out), b, out)
+    return out
 
 
 class FMod(sp.Function):
@@ -78,6 +106,7 @@ FMOD = ("the angle is reduced with fmod, whose result has the sign of the divide
 
 def setup(fn, mod=None, exclude=()):
     args = make_args(fn, funcs={"eval_spline_2d_cross": h_cross, "eval_spline_2d_scalar": h_scalar2})
+    _RANK.update(_param_ranks(fn))
     calls = dict(SPLINE_HANDLERS)
     calls.update({"max": _h_max, "min": _h_min, "maximum": _h_max, "minimum": _h_min, "fmax": _h_max, "fmin": _h_min,
                   "mod": _h_mod, "remainder": _h_mod, "fmod": _h_fmod})
@@ -96,6 +125,24 @@ def setup(fn, mod=None, exclude=()):
         ex.module_funcs = {q: n for q, n in mod.functions().items()
                            if "." not in q and q not in calls and n is not fn and q not in exclude}
     return ex, args
+
+
+def _boundary_tie(val):
+    """the truth assignment puts a foot EXACTLY on the radial boundary: for one expression e that contains r_0 or r_max both
+    `e < 0` is false and `e <= 0` is true.  The property compares only at nodes "whose foot is not within rounding distance
+    of the radial boundary": whether such a foot counts as inside (`<`) or outside (`<=`) is not specified, so a case of
+    this kind is not a counterexample.  (Comparisons of integers - loop counters, extents - are never skipped.)"""
+    by = {}
+    for (k, e), v in val.items():
+        if k in ("lt", "le"):
+            by.setdefault(e, {})[k] = v
+    for e, d in by.items():
+        if d.get("lt") is False and d.get("le") is True and e.is_integer is not True:
+            for a_ in e.atoms(AppliedUndef):
+                if str(a_.func) == "rPts" and len(a_.args) == 1 and not a_.args[0].has(Symbol("j", integer=True)) \
+                        and not a_.args[0].has(Symbol("i", integer=True)):
+                    return True
+    return False
 
 
 def _grid_order_ok(val):
@@ -160,19 +207,49 @@ class _Atoms:
     functions are one atom"""
 
     def __init__(self):
-        self.rep = {}            # syntactic key -> representative key
+        self.rep = {}            # syntactic key -> (representative key, negated)
 
-    def key(self, k, e):
+    def key2(self, k, e):
+        """-> (representative atom, negated): `e < 0` and `2 e < 0` are one atom (positive rational factor removed);
+        `e < 0` is the negation of `-e <= 0` and `e <= 0` the negation of `-e < 0`.  AUDIT: without this, two spellings of one
+        condition (`d > pi` and `2 pi - d < d`) are independent atoms and the case analysis visits impossible cases, in which
+        two equal formulas differ - a false difference."""
         if (k, e) in self.rep:
             return self.rep[(k, e)]
-        r = (k, e)
+        e0 = e
+        if k in ("lt", "le", "eq") and isinstance(e, sp.Basic):
+            try:
+                c_, p_ = sp.expand(e).primitive()
+                if c_.is_positive:
+                    e = p_
+            except Exception:
+                pass
+        r = ((k, e), False)
         if k != "atom":
-            for (k2, e2) in set(self.rep.values()):
-                if k2 == k and e2 is not e and _same_rational(e, e2):
-                    r = (k2, e2)
+            for (k2, e2) in {x[0] for x in self.rep.values()}:
+                if k2 == k and (e2 is e or _same_rational(e, e2)):
+                    r = ((k2, e2), False)
                     break
-        self.rep[(k, e)] = r
+                if k in ("lt", "le") and k2 in ("lt", "le") and k2 != k and _same_rational(e, -e2):
+                    r = ((k2, e2), True)
+                    break
+        self.rep[(k, e0)] = r
         return r
+
+    def key(self, k, e):
+        return self.key2(k, e)[0]
+
+
+def _opposite_consistent(val):
+    """`e < 0` and `-e < 0` cannot both be true; `e <= 0` and `-e <= 0` cannot both be false"""
+    items = [(k, e, v) for (k, e), v in val.items() if k in ("lt", "le")]
+    for a_ in range(len(items)):
+        for b_ in range(a_ + 1, len(items)):
+            k1, e1, v1 = items[a_]
+            k2, e2, v2 = items[b_]
+            if k1 == k2 and v1 == v2 and v1 == (k1 == "lt") and _same_rational(e1, -e2):
+                return False
+    return True
 
 
 def _same_rational(a, b):
@@ -213,10 +290,10 @@ def _cond_eval(c, A, val):
         v = _cond_eval(c.args[0], A, val)
         return None if v is None else not v
     k, e, n = canon_rel(c)
-    key = A.key(k, e)
+    key, neg = A.key2(k, e)
     if key not in val:
         return None
-    return (not val[key]) if n else val[key]
+    return (not val[key]) if (n != neg) else val[key]
 
 
 def _resolve(e, A, val):
@@ -269,7 +346,7 @@ def layered_equal(a, b, max_atoms=14):
         for bits in itertools.product([False, True], repeat=len(new)):
             v2 = dict(val)
             v2.update(zip(new, bits))
-            if not consistent(v2) or not _grid_order_ok(v2):
+            if not consistent(v2) or not _grid_order_ok(v2) or _boundary_tie(v2) or not _opposite_consistent(v2):
                 continue
             ok, wit = rec(_resolve(a, A, v2), _resolve(b, A, v2), v2)
             if not ok:
@@ -288,7 +365,7 @@ def unify_shapes(e, args):
     for s_ in e.free_symbols:
         m = _SHAPE_SYM.match(s_.name)
         if m and m.group(2) in args and isinstance(args[m.group(2)], Arr) and m.group(2) not in ("qPts", "rPts") \
-                and not m.group(2).startswith(("kts", "coeffs")):
+                and not m.group(2).startswith(("kts", "coeffs")) and _RANK.get(m.group(2), 2) == 2:
             sub[s_] = Symbol("n0_qPts" if m.group(1) == "0" else "n0_rPts", integer=True, positive=True)
     # a negative constant index counts from the end
     for a_ in e.atoms(AppliedUndef):
@@ -299,6 +376,9 @@ def unify_shapes(e, args):
 
 
 _SHAPE_SYM = re.compile(r"^n([01])_(\w+)$")
+# rank of the array parameters of the kernel under analysis, read from its annotations ('float[:,:]' -> 2) by setup(): the
+# shape assumption (n_theta, n_r) is only applied to arrays declared two-dimensional (a packed (2, n_theta, n_r) array is not)
+_RANK: dict = {}
 
 
 # scalar parameters of a kernel whose actual at the call site in PoloidalAdvection.step is not the quantity of that name
@@ -341,7 +421,7 @@ def kernel_scalar_actuals(chk):
                     kt2[nm_] = items
             elif _pure_path(v_):
                 al2[nm_] = v_
-        c = resolved_call(c0, al2, kt2)
+        c = resolved_call(splice_property_tuples(fn, c0), al2, kt2)
         formals = [a.arg for a in kmod.func(kname).args.args]
         b = agree.bind_call(c, formals)
         if b is None:
@@ -380,11 +460,37 @@ def kernel_scalar_actuals(chk):
             _SCALAR_SUBST[general] = sub
 
 
-def compare(chk, rule, node, what, code, spec, func, args=None, wrong=(), stale=(), one_shift=None):
+def compare(chk, rule, node, what, code, spec, func, args=None, wrong=(), stale=(), one_shift=None, overruled=None,
+            precond=None):
     """decisive verdict of the formula engine; anything that prevents the comparison is UNDECIDED.
     `wrong`: (diagnosis, formula) pairs of known wrong variants of the specification: when the code differs from the
-    specification and equals one of them the diagnosis names the defect"""
+    specification and equals one of them the diagnosis names the defect.
+
+    AUDIT - a VIOLATED verdict of this function states "the value the kernel computes differs from the specification in
+    the case quoted".  It is true of the code under these assumptions, each of which is checked here or by the caller:
+      (a) the symbolic execution modelled every construct it met: the engine raises Undecided on what it does not know;
+          the constructs it is known to model by a guess are screened beforehand (`extraction_hazards`): when one is
+          present a difference is UNDECIDED;
+      (b) `code` is the content of storage that reaches the result, under the storage convention the caller assumes
+          (which work array holds which stage, which arrays carry the iterate): the caller passes `precond` (a reason why
+          the convention is NOT established -> UNDECIDED) or `overruled` (the end-to-end comparison holds -> the stage
+          difference is immaterial, HOLDS);
+      (c) every two-dimensional argument has shape (len(qPts), len(rPts)) (`unify_shapes`; stated assumption of the check,
+          asserted by step() for f and established for the work arrays by rule E2-work-array-storage's allocation);
+      (d) scalar parameters denote the quantities of step() of that name or the expression step() passes (composition
+          with the call site, `_SCALAR_SUBST`; the roles of the actuals are decided by rules E2-*);
+      (e) differences confined to a foot lying EXACTLY on the radial boundary or an angular change of exactly pi are not
+          differences (the property restricts the comparison to feet away from the boundary): `layered_equal` skips
+          the cases in which a boundary atom holds with equality (see `_boundary_tie`);
+      (f) a value carried from one pass of the iteration to the next outside the arrays of the iterate shows up as a
+          symbol `*_carried` / an unwritten cell: UNDECIDED unless the prologue never wrote it either."""
     composed = ""
+    if isinstance(code, sp.Basic) and any(str(s_).endswith("_carried") and str(s_) != "norm_carried" for s_ in code.free_symbols):
+        chk.ob(rule, node, what, None,
+               "the extracted value depends on a scalar that one pass of the iteration hands to the next ("
+               + ", ".join(sorted(str(s_)[:-8] for s_ in code.free_symbols if str(s_).endswith("_carried")))
+               + "): state carried between passes outside the iterate is not followed", file=U.ADVK, func=func)
+        return None
     try:
         if args is not None:
             code = unify_shapes(code, args)
@@ -428,9 +534,85 @@ def compare(chk, rule, node, what, code, spec, func, args=None, wrong=(), stale=
             if same:
                 why = label + " - " + why
                 break
+    if not ok:
+        if overruled:
+            chk.ob(rule, node, what, True, overruled + " (the storage this rule looks at does not hold the specification's "
+                   "stage value)", file=U.ADVK, func=func, facts={"code": str(code)[:400], "spec": str(spec)[:400]})
+            return True
+        hz = _HAZARDS.get(func)
+        if precond or hz:
+            chk.ob(rule, node, what, None, (precond or
+                   "the kernel uses constructs that the symbolic execution models only approximately (" + "; ".join(hz[:3]) +
+                   ")") + f": the difference found is not a verdict - {why[:300]}", file=U.ADVK, func=func)
+            return None
     chk.ob(rule, node, what, ok, why, file=U.ADVK, func=func,
            facts={"code": str(code)[:400], "spec": str(spec)[:400]})
     return ok
+
+
+# kernel name -> constructs present in it that symx.SymExec executes by a guess (filled by extraction_hazards)
+_HAZARDS: dict = {}
+
+
+def extraction_hazards(fn, mod=None, seen=None):
+    """AUDIT of the extractor: constructs that `symx.SymExec` accepts but does not model exactly.  Found in a kernel (or in a
+    helper function of the kernel module that it calls), they turn a formula DIFFERENCE into UNDECIDED (agreement with the
+    specification despite them stays HOLDS only for constructs whose guess cannot create agreement, which is the case of all
+    of these: each replaces a value by an unknown or keeps an older one).
+      * `zeros` / `ones` / `full` / `*_like` allocations: modelled as an array of unknown content;
+      * `range` with a step: the step is ignored; `for ... else`: the else suite is ignored;
+      * whole-array statements (`a[:, :] = b`, `a[i, :] = b * c`): evaluated lazily - the right-hand side is read when the target
+        is read, so a later store into an operand changes the value seen;
+      * (not screened, harmless in a well-formed kernel: a scalar bound on one arm of a conditional only keeps that arm's
+        value, which is only read on paths where it is bound);
+      * a handler name (`max`, `min`, `mod`, `abs`, the spline evaluators, f_eq) rebound by the module or the function;
+      * `global` / `nonlocal`, `try`, `with`, nested function definitions, comprehensions, `lambda`, walrus."""
+    seen = seen if seen is not None else set()
+    if id(fn) in seen:
+        return []
+    seen.add(id(fn))
+    out = []
+    handler_names = {"max", "min", "maximum", "minimum", "fmax", "fmin", "mod", "remainder", "fmod", "abs", "f_eq", "len",
+                     "sqrt", "exp", "tanh", "cos", "sin", "floor", "real", "float", "int"}
+    params = {a.arg for a in fn.args.args}
+    for n in ast.walk(fn):
+        if n is fn:
+            continue
+        if isinstance(n, ast.Call):
+            nm = n.func.attr if isinstance(n.func, ast.Attribute) else getattr(n.func, "id", None)
+            if nm in ("zeros", "ones", "full", "zeros_like", "ones_like", "full_like", "empty_like"):
+                out.append(f"`{src(n)[:40]}`: initial content not modelled")
+            if mod is not None and isinstance(n.func, ast.Name) and mod.has(n.func.id) and "." not in n.func.id \
+                    and n.func.id not in handler_names and not n.func.id.startswith(("cu_", "nu_")):
+                try:
+                    out += extraction_hazards(mod.func(n.func.id), mod, seen)
+                except Exception:
+                    pass
+            if isinstance(n.func, ast.Name) and n.func.id == "range" and (len(n.args) == 3 or n.keywords):
+                out.append(f"`{src(n)[:40]}`: stride of the range")
+        elif isinstance(n, ast.For) and n.orelse:
+            out.append("for/else")
+        elif isinstance(n, ast.Subscript) and any(isinstance(x, ast.Slice) for x in ([n.slice] if not isinstance(n.slice, ast.Tuple)
+                                                                                      else n.slice.elts)):
+            out.append(f"whole-array access `{src(n)[:40]}` (evaluated lazily)")
+        elif isinstance(n, (ast.Global, ast.Nonlocal, ast.Try, ast.With, ast.FunctionDef, ast.Lambda, ast.ListComp, ast.DictComp,
+                            ast.SetComp, ast.GeneratorExp, ast.NamedExpr, ast.ClassDef, ast.AsyncFunctionDef)):
+            out.append(f"{type(n).__name__} statement/expression")
+        elif isinstance(n, ast.Name) and isinstance(n.ctx, ast.Store) and n.id in handler_names:
+            out.append(f"`{n.id}` rebound locally")
+    for nm in handler_names & params:
+        out.append(f"parameter named `{nm}`")
+    seen_ = []
+    for x in out:
+        if x not in seen_:
+            seen_.append(x)
+    return seen_
+
+
+# what the symbolic execution raises on code outside its fragment: Undecided where it knows that it does not model a
+# construct, and plain Python errors where a construct it accepts produces an object it cannot compute with (a whole-row
+# operand in an arithmetic it only defines for scalars, a missing handler argument, ...).  Both mean "not extracted".
+_NOT_EXTRACTED = (Undecided, TypeError, KeyError, AttributeError, ValueError, IndexError, NotImplementedError)
 
 
 def cell(ex, name, idx):
@@ -648,6 +830,241 @@ def _zero_based_sweeps(fn, _depth=0):
     return _zero_based_sweeps(new, _depth + 1) if _depth < 2 else new
 
 
+def _param_ranks(fn):
+    """rank of the array parameters of a kernel from its annotations ('float[:,:]' -> 2); a copy of the kernel without
+    annotations (numba / pythran modules) is typed by the annotated reference function of the same name"""
+    from ..symx import ANNOTATION_SOURCE
+    ref = ANNOTATION_SOURCE.get(fn.name)
+    refann = {a.arg: a.annotation for a in ref.args.args} if ref is not None else {}
+    out = {}
+    for a_ in fn.args.args:
+        an = a_.annotation if a_.annotation is not None else refann.get(a_.arg)
+        ann = src(an) if an is not None else ""
+        m_ = re.search(r"\[([:,\s]*)\]", ann)
+        if m_ and ":" in m_.group(1) and "(" not in ann:
+            out[a_.arg] = m_.group(1).count(":")
+    return out
+
+
+def _expand_constant_fills(fn):
+    """private copy of `fn` in which a whole-array fill with a number, `A[:, :] = c` / `A[:] = c` / `A[...] = c` / `A.fill(c)`
+    for a parameter A declared two-dimensional, is written as the double loop over all its cells that it is
+    (`for p in range(A.shape[0]): for q in range(A.shape[1]): A[p, q] = c`): the element-wise form is what the symbolic
+    execution models exactly.  Returns `fn` itself when there is nothing to rewrite."""
+    from ..core import clone
+    rank2 = {n_ for n_, r_ in _param_ranks(fn).items() if r_ == 2}
+
+    def number(v):
+        if isinstance(v, ast.UnaryOp) and isinstance(v.op, (ast.USub, ast.UAdd)):
+            v = v.operand
+        return isinstance(v, ast.Constant) and isinstance(v.value, (int, float)) and not isinstance(v.value, bool)
+
+    def fill_of(st):
+        if isinstance(st, ast.Assign) and len(st.targets) == 1 and isinstance(st.targets[0], ast.Subscript) \
+                and isinstance(st.targets[0].value, ast.Name) and st.targets[0].value.id in rank2 and number(st.value):
+            sl = st.targets[0].slice
+            items = sl.elts if isinstance(sl, ast.Tuple) else [sl]
+            full = all(isinstance(x, ast.Slice) and x.lower is None and x.upper is None and x.step is None for x in items)
+            if (full and len(items) in (1, 2)) or (len(items) == 1 and isinstance(items[0], ast.Constant) and items[0].value is Ellipsis):
+                return st.targets[0].value.id, st.value
+        if isinstance(st, ast.Expr) and isinstance(st.value, ast.Call) and isinstance(st.value.func, ast.Attribute) \
+                and st.value.func.attr == "fill" and isinstance(st.value.func.value, ast.Name) and st.value.func.value.id in rank2 \
+                and len(st.value.args) == 1 and not st.value.keywords and number(st.value.args[0]):
+            return st.value.func.value.id, st.value.args[0]
+        return None
+    if not any(fill_of(st) for st in ast.walk(fn)):
+        return fn
+    par = parent(fn)
+    new = clone(fn)
+    count = [0]
+
+    def rewrite(stmts):
+        out = []
+        for st in stmts:
+            for field in ("body", "orelse"):
+                if isinstance(getattr(st, field, None), list) and not isinstance(st, ast.FunctionDef):
+                    setattr(st, field, rewrite(getattr(st, field)))
+            hit = fill_of(st)
+            if hit is None:
+                out.append(st)
+                continue
+            name, val = hit
+            count[0] += 1
+            p_, q_ = f"_fill{count[0]}_p", f"_fill{count[0]}_q"
+            loop = ast.parse(f"for {p_} in range({name}.shape[0]):\n    for {q_} in range({name}.shape[1]):\n"
+                             f"        {name}[{p_}, {q_}] = 0").body[0]
+            loop.body[0].body[0].value = val
+            for x in ast.walk(loop):
+                ast.copy_location(x, st)
+            out.append(loop)
+        return out
+    new.body = rewrite(new.body)
+    ast.fix_missing_locations(new)
+    for n in ast.walk(new):
+        for ch in ast.iter_child_nodes(n):
+            ch._parent = n
+    new._parent = par
+    if hasattr(fn, "_qual"):
+        new._qual = fn._qual
+    return new
+
+
+def _scalarise_rows(fn):
+    """private copy of `fn` in which an element-wise whole-ROW (or whole-column) statement on declared arrays,
+        A[x, :] = <arithmetic of B[y, :], one-dimensional arrays V, scalars>        (also `op=`),
+    is written as the loop over the cells of the row that it is,
+        for k in range(A.shape[1]): A[x, k] = <the same arithmetic of B[y, k], V[k], scalars>.
+    The two are the same computation when the statement reads its own target only at the row it writes (numpy evaluates the
+    right-hand side before it stores; cell k of the result depends on cell k of the operands only) and the operands are
+    storage distinct from the target (different parameters of the kernel: rule E2-work-array-storage).  The counter is the
+    counter of a loop over the same axis that stands in the same block when there is one (the row statement and that loop
+    then read and write the cells of one node under one name), a fresh name otherwise.  Statements that do not fit (two
+    slices, a call, a transposed operand, a target read at another row) are left as they are - the extraction then stops at
+    them.  Returns `fn` itself when there is nothing to rewrite."""
+    from ..core import clone
+    rank = _param_ranks(fn)
+    rebound = {n.id for n in ast.walk(fn) if isinstance(n, ast.Name) and isinstance(n.ctx, ast.Store)}
+
+    def full(x):
+        return isinstance(x, ast.Slice) and x.lower is None and x.upper is None and x.step is None
+
+    def row_of(sub):
+        """`A[x, :]` / `A[:, x]` on a declared two-dimensional array, `V[:]` on a one-dimensional one -> (array, axis of the
+        slice, text of the other index)"""
+        if not (isinstance(sub, ast.Subscript) and isinstance(sub.value, ast.Name) and sub.value.id in rank
+                and sub.value.id not in rebound):
+            return None
+        items = sub.slice.elts if isinstance(sub.slice, ast.Tuple) else [sub.slice]
+        if rank[sub.value.id] == 2 and len(items) == 2 and sum(full(x) for x in items) == 1:
+            ax = 0 if full(items[0]) else 1
+            other = items[1 - ax]
+            if isinstance(other, (ast.Name, ast.Constant)):
+                return sub.value.id, ax, src(other)
+        if rank[sub.value.id] == 1 and len(items) == 1 and full(items[0]):
+            return sub.value.id, None, None
+        return None
+
+    def convertible(st):
+        if isinstance(st, ast.Assign) and len(st.targets) == 1:
+            tgt, val = st.targets[0], st.value
+        elif isinstance(st, ast.AugAssign):
+            tgt, val = st.target, st.value
+        else:
+            return None
+        t = row_of(tgt)
+        if t is None or t[1] is None:
+            return None
+        ok = [True]
+        vector = [isinstance(st, ast.AugAssign)]
+
+        def scan(e):
+            if not ok[0]:
+                return
+            r = row_of(e) if isinstance(e, ast.Subscript) else None
+            if r is not None:
+                if (r[1] is not None and r[1] != t[1]) or (r[0] == t[0] and r[2] != t[2]):
+                    ok[0] = False
+                vector[0] = True
+                return
+            if isinstance(e, ast.Subscript):
+                if any(isinstance(x, ast.Slice) for x in ast.walk(e.slice)):
+                    ok[0] = False
+                if isinstance(e.value, ast.Name) and e.value.id == t[0]:
+                    ok[0] = False             # the target read at a single cell: may be a cell of the row being written
+                return
+            if isinstance(e, ast.Name):
+                if e.id in rank and rank[e.id] == 1 and e.id not in rebound:
+                    vector[0] = True
+                elif e.id in rank:
+                    ok[0] = False             # a whole two-dimensional array as operand
+                return
+            if isinstance(e, ast.Constant):
+                return
+            if isinstance(e, ast.BinOp) and isinstance(e.op, (ast.Add, ast.Sub, ast.Mult, ast.Div, ast.Mod, ast.Pow)):
+                scan(e.left)
+                scan(e.right)
+                return
+            if isinstance(e, ast.UnaryOp) and isinstance(e.op, (ast.USub, ast.UAdd)):
+                scan(e.operand)
+                return
+            ok[0] = False
+        scan(val)
+        return t if ok[0] and vector[0] else None
+
+    if not any(convertible(st) for st in ast.walk(fn)):
+        return fn
+    par = parent(fn)
+    new = clone(fn)
+    used = {n.id for n in ast.walk(new) if isinstance(n, ast.Name)} | {a.arg for a in new.args.args}
+    fresh = [0]
+
+    def counter_for(stmts, ax):
+        for st in stmts:
+            if isinstance(st, ast.For) and isinstance(st.target, ast.Name) and isinstance(st.iter, ast.Call) \
+                    and src(st.iter.func) == "range":
+                v = st.target.id
+                pos = set()
+                for n in ast.walk(st):
+                    if isinstance(n, ast.Subscript) and isinstance(n.value, ast.Name) and rank.get(n.value.id) == 2:
+                        ix = n.slice.elts if isinstance(n.slice, ast.Tuple) else [n.slice]
+                        pos |= {k_ for k_, x in enumerate(ix) if isinstance(x, ast.Name) and x.id == v}
+                if pos == {ax}:
+                    return v
+        fresh[0] += 1
+        nm = f"_row{fresh[0]}_k"
+        while nm in used:
+            fresh[0] += 1
+            nm = f"_row{fresh[0]}_k"
+        return nm
+
+    def rewrite(stmts):
+        out = []
+        names = {}
+        for st in stmts:
+            for field in ("body", "orelse"):
+                if isinstance(getattr(st, field, None), list) and not isinstance(st, ast.FunctionDef):
+                    setattr(st, field, rewrite(getattr(st, field)))
+            t = convertible(st)
+            if t is None:
+                out.append(st)
+                continue
+            arr, ax, _other = t
+            if ax not in names:
+                names[ax] = counter_for(stmts, ax)
+            k = names[ax]
+
+            class _El(ast.NodeTransformer):
+                def visit_Subscript(self, n):
+                    r = row_of(n)
+                    if r is None:
+                        return n
+                    items = n.slice.elts if isinstance(n.slice, ast.Tuple) else [n.slice]
+                    items = [ast.Name(id=k, ctx=ast.Load()) if full(x) else x for x in items]
+                    n.slice = ast.Tuple(elts=items, ctx=ast.Load()) if len(items) > 1 else items[0]
+                    return n
+
+                def visit_Name(self, n):
+                    if isinstance(n.ctx, ast.Load) and rank.get(n.id) == 1 and n.id not in rebound:
+                        return ast.Subscript(value=n, slice=ast.Name(id=k, ctx=ast.Load()), ctx=ast.Load())
+                    return n
+            body = _El().visit(st)
+            loop = ast.For(target=ast.Name(id=k, ctx=ast.Store()),
+                           iter=ast.parse(f"range({arr}.shape[{ax}])", mode="eval").body, body=[body], orelse=[])
+            for x in ast.walk(loop):
+                ast.copy_location(x, st)
+            out.append(loop)
+        return out
+    new.body = rewrite(new.body)
+    ast.fix_missing_locations(new)
+    for n in ast.walk(new):
+        for ch in ast.iter_child_nodes(n):
+            ch._parent = n
+    new._parent = par
+    if hasattr(fn, "_qual"):
+        new._qual = fn._qual
+    return new
+
+
 def _without_continue(chk, fn, modname, qname):
     """the kernel with the early exits of its sweeps (`if c: ...; continue`) written as if/else (same behaviour: the
     statements after the conditional move into the arm that falls through), so that a node skipped by an early exit
@@ -658,7 +1075,7 @@ def _without_continue(chk, fn, modname, qname):
     if why:
         chk.ob("F1-extraction", fn, qname, None, f"early exit that cannot be written as if/else: {why}", file=modname, func=qname)
         return None
-    return _zero_based_sweeps(new)
+    return _scalarise_rows(_expand_constant_fills(_zero_based_sweeps(new)))
 
 
 def check_explicit(chk, mod, modname=U.ADVK, qname=EXPL):
@@ -666,32 +1083,77 @@ def check_explicit(chk, mod, modname=U.ADVK, qname=EXPL):
     if fn is None:
         return
     chk.functions.add(f"{modname}:{qname}")
+    _HAZARDS[qname] = extraction_hazards(fn, mod)
     ex, args = setup(fn, mod, (qname,))
     try:
         ex.run()
         S = spec_symbols(args)
         i, j = S["i"], S["j"]
         got = {n: cell(ex, n, [i, j]) for n in ("endPts_k1_q", "endPts_k1_r", "endPts_k2_q", "endPts_k2_r", "f")}
-    except Undecided as e:
+    except _NOT_EXTRACTED as e:
         chk.ob("F1-extraction", fn, qname, None, f"kernel outside the extractable fragment: {e}", file=modname, func=qname)
         return
     sweep_ranges(chk, fn, [(fn.body, ex.env)], args, modname, qname)
     T = trace_spec(S)
-    compare(chk, "F1-predictor", fn, "theta* = W(theta_i - (d_r phi/r_j) dt/B0)", got["endPts_k1_q"], T["th1"], qname,
-            args, wrong_traces(S, "th1"))
-    compare(chk, "F1-predictor", fn, "r* = r_j + (d_theta phi/r_j) dt/B0", got["endPts_k1_r"], T["r1"], qname,
-            args, wrong_traces(S, "r1"))
-    # endPts_k2_q may have been wrapped once more inside the fill branch: idempotent
-    compare(chk, "F1-corrector", fn, "theta_foot = W(theta_i - 1/2 (F_th(x) + F_th(x*)) dt/B0)", Wrap(got["endPts_k2_q"]),
-            T["th2"], qname, args, wrong_traces(S, "th2"), WORK)
-    compare(chk, "F1-corrector", fn, "r_foot = r_j + 1/2 (F_r(x) + F_r(x*)) dt/B0", got["endPts_k2_r"], T["r2"], qname,
-            args, wrong_traces(S, "r2"), WORK)
     nul = args["nulBound"]
+    # AUDIT (soundness of the stage rules below).  The only OBSERVABLE of the explicit kernel is f; that endPts_k1_* holds the
+    # predictor and endPts_k2_* the corrected foot is a convention of today's kernel, not part of the property (a fused
+    # kernel may keep them in local scalars, or in other work arrays).  The stage rules are therefore subordinated to the
+    # END-TO-END comparison: f[i, j] as a function of the kernel's inputs against fill(theta_foot, r_foot) of the
+    # specification.  When that holds the kernel is right wherever it keeps its intermediates, and a stage array that
+    # does not hold the specification's stage value is not an error; when it does not hold (or is not decidable) the stage
+    # rules say which stage is wrong, and a stage rule may only say VIOLATED about an array the kernel has written and
+    # reads again afterwards (see `consumed`).
+    e2e = None
+    try:
+        e2e = layered_equal(unify_shapes(got["f"], args), fill_spec(S, T["th2"], T["r2"], nul))[0]
+    except Undecided:
+        e2e = None
+    e2e_note = ("the value of f composed end to end (f[i, j] as a function of the kernel's inputs) equals fill(theta_foot, "
+                "r_foot) of the specification: where the kernel keeps its intermediate values is its own affair") if e2e else None
+    consumed = _consumed_arrays(fn)
+    def stage(rule, what, arr, code, spec, wrong, stale=()):
+        compare(chk, rule, fn, what, code, spec, qname, args, wrong, stale, overruled=e2e_note,
+                precond=None if arr in consumed else
+                f"the kernel does not both write `{arr}` and read it again: it keeps this stage value elsewhere, so the content "
+                f"of `{arr}` says nothing about the result")
+    stage("F1-predictor", "theta* = W(theta_i - (d_r phi/r_j) dt/B0)", "endPts_k1_q", got["endPts_k1_q"], T["th1"],
+          wrong_traces(S, "th1"))
+    stage("F1-predictor", "r* = r_j + (d_theta phi/r_j) dt/B0", "endPts_k1_r", got["endPts_k1_r"], T["r1"],
+          wrong_traces(S, "r1"))
+    # endPts_k2_q may have been wrapped once more inside the fill branch: idempotent
+    stage("F1-corrector", "theta_foot = W(theta_i - 1/2 (F_th(x) + F_th(x*)) dt/B0)", "endPts_k2_q", Wrap(got["endPts_k2_q"]),
+          T["th2"], wrong_traces(S, "th2"), WORK)
+    stage("F1-corrector", "r_foot = r_j + 1/2 (F_r(x) + F_r(x*)) dt/B0", "endPts_k2_r", got["endPts_k2_r"], T["r2"],
+          wrong_traces(S, "r2"), WORK)
     # the fill is a function of the foot: compared on the foot the kernel computed (its correctness is the rule above),
-    # so that a wrong foot is reported once, by the rule that owns it
-    th_f, r_f = unify_shapes(got["endPts_k2_q"], args), unify_shapes(got["endPts_k2_r"], args)
-    compare(chk, "F1-boundary-fill", fn, "f[i,j] = fill(theta_foot, r_foot)", got["f"], fill_spec(S, th_f, r_f, nul), qname,
-            args, [w_ for w_ in wrong_fills(S, th_f, r_f, nul) if w_[1] is not None])
+    # so that a wrong foot is reported once, by the rule that owns it.  That presupposes that the foot IS what the kernel
+    # left in endPts_k2_* (written and read again); otherwise the fill is compared end to end, on the foot of the specification
+    if "endPts_k2_q" in consumed and "endPts_k2_r" in consumed:
+        th_f, r_f = unify_shapes(got["endPts_k2_q"], args), unify_shapes(got["endPts_k2_r"], args)
+        compare(chk, "F1-boundary-fill", fn, "f[i,j] = fill(theta_foot, r_foot)", got["f"], fill_spec(S, th_f, r_f, nul), qname,
+                args, [w_ for w_ in wrong_fills(S, th_f, r_f, nul) if w_[1] is not None], overruled=e2e_note)
+    else:
+        compare(chk, "F1-boundary-fill", fn, "f[i,j] = fill(theta_foot, r_foot) (end to end)", got["f"],
+                fill_spec(S, T["th2"], T["r2"], nul), qname, args,
+                [w_ for w_ in wrong_fills(S, T["th2"], T["r2"], nul) if w_[1] is not None])
+
+
+def _consumed_arrays(fn):
+    """names of arrays that the function both writes (element / slice store, or handed to a call, which may fill them)
+    and reads (element / slice load): the arrays whose content can reach the result"""
+    st_, ld_ = set(), set()
+    for n in ast.walk(fn):
+        if isinstance(n, ast.Subscript) and isinstance(n.value, ast.Name):
+            (st_ if isinstance(n.ctx, ast.Store) else ld_).add(n.value.id)
+        elif isinstance(n, ast.AugAssign) and isinstance(n.target, ast.Subscript) and isinstance(n.target.value, ast.Name):
+            st_.add(n.target.value.id)
+            ld_.add(n.target.value.id)
+        elif isinstance(n, ast.Call):
+            for a in list(n.args) + [k.value for k in n.keywords]:
+                if isinstance(a, ast.Name):
+                    st_.add(a.id)
+    return st_ & ld_
 
 
 def _top_assign_names(stmts):
@@ -702,6 +1164,29 @@ def _top_assign_names(stmts):
         elif isinstance(st, ast.AugAssign) and isinstance(st.target, ast.Name):
             out.append(st.target.id)
     return out
+
+
+def _sweep_axes(outer, inner):
+    """which of the two counters of a sweep over the nodes runs over theta (first index of the two-dimensional arrays, index
+    of qPts) and which over r (second index, index of rPts): -> (theta counter, r counter).  The nesting order of the two
+    loops is immaterial (the nodes are independent); it is read off the subscripts, never assumed."""
+    a, b = outer.target.id, inner.target.id
+    pos = {a: set(), b: set()}
+    for n in ast.walk(outer):
+        if isinstance(n, ast.Subscript) and isinstance(n.value, ast.Name):
+            ix = n.slice.elts if isinstance(n.slice, ast.Tuple) else [n.slice]
+            for k_, x in enumerate(ix):
+                if isinstance(x, ast.Name) and x.id in pos:
+                    if len(ix) == 2:
+                        pos[x.id].add(k_)
+                    elif len(ix) == 1 and n.value.id in ("qPts", "rPts"):
+                        pos[x.id].add(0 if n.value.id == "qPts" else 1)
+    if pos[a] == {0} and pos[b] == {1}:
+        return a, b
+    if pos[a] == {1} and pos[b] == {0}:
+        return b, a
+    raise Undecided(f"the counters `{a}` / `{b}` of the sweep are not used as (theta index, r index) consistently "
+                    f"(positions {sorted(pos[a])} / {sorted(pos[b])})")
 
 
 def node_sweeps(loops, body):
@@ -731,7 +1216,7 @@ def node_sweeps(loops, body):
             for n in ast.walk(o):
                 if isinstance(n, ast.Subscript) and isinstance(n.value, ast.Name) and n.value.id in written:
                     ix = n.slice.elts if isinstance(n.slice, ast.Tuple) else [n.slice]
-                    if [src(x) for x in ix] != [o.target.id, inn.target.id]:
+                    if [src(x) for x in ix] != list(_sweep_axes(o, inn)):
                         raise Undecided(f"`{src(n)}` is not an access at the node of its sweep: the sweeps cannot be fused")
             stored.append({n.id for n in ast.walk(o) if isinstance(n, ast.Name) and isinstance(n.ctx, ast.Store)} -
                           {o.target.id, inn.target.id, "norm"})
@@ -758,6 +1243,28 @@ def _split_sweep(lp):
             return any(isinstance(x, ast.For) and x is not lp and isinstance(x.iter, ast.Call) and src(x.iter.func) == "range"
                        and src(x.iter) != src(lp.iter) for x in lst)
     return False
+
+
+def _peeled(fn, lp, v):
+    """an array that the loop `lp` writes at counter `v` is also written, outside the loop, at an index of the same position
+    that is not a plain loop counter (a constant, `n - 1`, ...) -> description of the first such store, else None"""
+    inside = {id(n) for n in ast.walk(lp)}
+    pos = {}
+    for n in ast.walk(lp):
+        if isinstance(n, ast.Subscript) and isinstance(n.ctx, ast.Store) and isinstance(n.value, ast.Name):
+            ix = n.slice.elts if isinstance(n.slice, ast.Tuple) else [n.slice]
+            for k_, x in enumerate(ix):
+                if isinstance(x, ast.Name) and x.id == v:
+                    pos.setdefault(n.value.id, set()).add(k_)
+    for n in ast.walk(fn):
+        if id(n) in inside or not (isinstance(n, ast.Subscript) and isinstance(n.ctx, ast.Store) and isinstance(n.value, ast.Name)):
+            continue
+        if n.value.id in pos:
+            ix = n.slice.elts if isinstance(n.slice, ast.Tuple) else [n.slice]
+            for k_ in pos[n.value.id]:
+                if k_ < len(ix) and not isinstance(ix[k_], ast.Name):
+                    return f"`{src(n)[:40]}` (line {n.lineno}) stores into the same array at a fixed index of that axis"
+    return None
 
 
 def sweep_ranges(chk, fn, regions, args, modname, qname):
@@ -810,11 +1317,22 @@ def sweep_ranges(chk, fn, regions, args, modname, qname):
                        f"the sweep over {axis} runs from {lo} to {hi} and is followed or preceded by another loop with other "
                        "bounds in the same block (a sweep split in parts?): whether together they visit every node is not decided",
                        file=modname, func=qname)
+            elif ((dlo.is_number and dlo != 0) or (dhi.is_number and dhi != 0)) and _peeled(fn, lp, v):
+                chk.ob("F1-sweep-range", lp, what, None,
+                       f"the sweep over {axis} runs from {lo} to {hi}, and {_peeled(fn, lp, v)}: the nodes the loop leaves out may "
+                       "be treated there (a peeled iteration): not decided", file=modname, func=qname)
             elif (dlo.is_number and dlo != 0) or (dhi.is_number and dhi != 0):
+                # AUDIT: true when (1) the counter indexes the axis found from its subscripts (one role only), (2) the bounds
+                # are those of the loop after normalisation of the counting convention, compared with the extent of that axis
+                # under the shape assumption of the check, (3) no other loop stands next to it (split sweep, above) and (4) the
+                # arrays the loop writes are not also written outside it at a fixed index of that axis (peeled iteration, above)
                 chk.ob("F1-sweep-range", lp, what, False,
                        f"the sweep over {axis} runs from {lo} to {hi} instead of over all {want} nodes: the nodes left out keep "
                        "stale values (of f, or of the work arrays of the previous call)", file=modname, func=qname)
             elif sp.simplify(hi - other) == 0:
+                # AUDIT: true when the counter indexes ONE axis (a counter used on both axes is skipped above) and the upper
+                # bound is, under the shape assumption of the check, the extent of the OTHER axis and not of this one (the
+                # two extents are independent symbols: hi - want != 0 was established above, hi - other == 0 here)
                 chk.ob("F1-sweep-range", lp, what, False,
                        f"the sweep over {axis} uses the number of nodes of the other axis ({hi}): nodes are left out or the "
                        "index runs past the array whenever the two differ", file=modname, func=qname)
@@ -899,7 +1417,18 @@ def convergence_test(chk, w, ex, args, modname, qname, do_while=False, counters=
                           and k_ not in counters}))
     want = canon_rel(sp.Gt(nrm, tol))
     verdict, why = None, None
+    # AUDIT: the verdicts below read the loop test as a condition on the measure `norm` as the pass leaves it and on values
+    # fixed before the loop.  A name of the test that the loop body assigns (a flag `go = norm > tol` set at the end of the
+    # pass, a tolerance that is tightened) makes the test a function of state carried by the loop: evaluating it with the
+    # value the name has BEFORE the loop (`go = True` -> "constant true") would be a mis-reading -> UNDECIDED.
+    body_stores = {n.id for st in w.body for n in ast.walk(st) if isinstance(n, ast.Name) and isinstance(n.ctx, ast.Store)}
+    test_names = {n.id for n in ast.walk(w.test) if isinstance(n, ast.Name)}
+    carried_ = sorted((test_names & body_stores) - {"norm"} - set(counters))
     try:
+        if carried_:
+            raise Undecided(f"the test reads {carried_}, which the loop body assigns (state carried by the loop)")
+        if "norm" in test_names and "norm" not in body_stores:
+            raise Undecided("the test reads `norm`, which the loop body never assigns: it is not the measure of the pass")
         c = tex.ev(w.test)
     except Undecided as e:
         c = None
@@ -927,6 +1456,9 @@ def convergence_test(chk, w, ex, args, modname, qname, do_while=False, counters=
             if got == want:
                 verdict = True
             elif canon_rel(sp.Not(c)) in (want, canon_rel(sp.Ge(nrm, tol))):
+                # AUDIT: the test is exactly `norm <= tol` / `norm < tol` on the measure the pass assigns (guards above: every
+                # name of the test is `norm`, `tol`, a pass counter or fixed before the loop); for a loop brought to while form
+                # from `if c: break` the test is `not c`, so this is `if norm > tol: break`
                 verdict, why = False, ("the loop test is inverted: it continues while the measure is BELOW the tolerance, so "
                                        "the iteration stops (or never starts) while the iterates still move: the foot is "
                                        "not the converged solution of the implicit trapezoidal rule")
@@ -949,6 +1481,8 @@ def convergence_test(chk, w, ex, args, modname, qname, do_while=False, counters=
     elif verdict is False:
         chk.ob("F1-convergence-test", w, src(w.test), False, why, file=modname, func=qname)
     elif verdict is True and entered is False:
+        # AUDIT: the loop is a real `while` (not a do-while), its test is `norm > tol`, and the value the prologue leaves in
+        # `norm` minus tol is provably <= 0 as a symbolic expression (`norm = tol`, `norm = 0.0`, `norm = tol - 1`)
         chk.ob("F1-convergence-test", w, src(w.test), False,
                f"the measure is initialised to {norm0}, not above tol: the loop is never entered and the foot stays the "
                "explicit Euler predictor", file=modname, func=qname)
@@ -966,15 +1500,70 @@ def _always_reduced(e):
     return False
 
 
+def _pass_conventions(fn, k, body):
+    """storage conventions of the implicit kernel, read off the code: what one pass of the iteration (statements `body`)
+    writes, what the prologue `fn.body[:k]` writes, which arrays carry state from pass to pass, and - when that is not
+    exactly the pair endPts_k1_q / endPts_k1_r - the reason why the rules written for that convention do not apply"""
+    # what one pass writes: arrays (element / slice stores, arrays handed to a call) and scalars
+    pass_stored, pass_scalars = set(), set()
+    loop_targets = {n.target.id for st in body for n in ast.walk(st) if isinstance(n, ast.For) and isinstance(n.target, ast.Name)}
+    for st in body:
+        for n in ast.walk(st):
+            if isinstance(n, ast.Subscript) and isinstance(n.ctx, ast.Store) and isinstance(n.value, ast.Name):
+                pass_stored.add(n.value.id)
+            elif isinstance(n, ast.Call) and not (isinstance(n.func, ast.Name) and n.func.id in ("eval_spline_2d_scalar", "f_eq",
+                                                                                                   "abs", "max", "min", "range")):
+                pass_stored |= {a.id for a in list(n.args) + [kw_.value for kw_ in n.keywords] if isinstance(a, ast.Name)}
+            elif isinstance(n, ast.Name) and isinstance(n.ctx, ast.Store) and n.id not in loop_targets:
+                pass_scalars.add(n.id)
+    # the prologue must have written what the first pass reads: arrays the prologue writes
+    pro_stored = set()
+    for st in fn.body[:k]:
+        for n in ast.walk(st):
+            if isinstance(n, ast.Subscript) and isinstance(n.ctx, ast.Store) and isinstance(n.value, ast.Name):
+                pro_stored.add(n.value.id)
+            elif isinstance(n, ast.Call):
+                pro_stored |= {a.id for a in list(n.args) + [k_.value for k_ in n.keywords] if isinstance(a, ast.Name)}
+    # AUDIT: the rules below assume the storage convention "the iterate is carried from pass to pass in endPts_k1_q /
+    # endPts_k1_r": the arrays that the prologue writes AND the pass writes AND the pass reads are exactly these two.  Any
+    # other array with that status is state carried between passes that this analysis does not follow: its stale-cell
+    # diagnosis ("left over from the previous CALL") would be wrong, the value is left over from the previous PASS.
+    carried_arrays = sorted((pass_stored & pro_stored & _consumed_arrays(ast.Module(body=body, type_ignores=[]))) - {"f"})
+    convention = None
+    if set(carried_arrays) - {"endPts_k1_q", "endPts_k1_r"}:
+        convention = (f"the arrays {sorted(set(carried_arrays) - {'endPts_k1_q', 'endPts_k1_r'})} are written by the prologue and "
+                      "re-written and read by the pass: state carried between passes outside endPts_k1_*, a storage convention "
+                      "this analysis does not follow")
+    elif not {"endPts_k1_q", "endPts_k1_r"} <= set(carried_arrays):
+        convention = (f"the iterate is not carried in endPts_k1_q / endPts_k1_r (arrays written by the prologue and re-written "
+                      f"and read by the pass: {carried_arrays}): a storage convention this analysis does not follow")
+    return pass_stored, pass_scalars, pro_stored, carried_arrays, convention
+
+
 def check_implicit(chk, mod, modname=U.ADVK, qname=IMPL):
     fn = _without_continue(chk, mod.func(qname), modname, qname)
     if fn is None:
         return
     chk.functions.add(f"{modname}:{qname}")
+    _HAZARDS[qname] = extraction_hazards(fn, mod)
     found = iteration_loop(fn)
     if found is None:
+        # AUDIT: "no iteration" is true of the kernel only if the iteration cannot be anywhere else: every call the kernel
+        # makes is to one of its evaluator parameters, f_eq, or a builtin/numpy scalar function.  A call of anything else (a
+        # helper of the module, a method, an unknown name) may contain the loop -> UNDECIDED.
+        harmless = {"eval_spline_2d_cross", "eval_spline_2d_scalar", "f_eq", "range", "abs", "max", "min", "float", "int",
+                    "len", "mod", "fmod", "remainder", "maximum", "minimum", "fmax", "fmin", "sqrt"}
+        other_calls = sorted({src(n.func) for n in ast.walk(fn) if isinstance(n, ast.Call)
+                              and (n.func.attr if isinstance(n.func, ast.Attribute) else getattr(n.func, "id", "?")) not in harmless})
+        recursion_free = not any(isinstance(n, (ast.Lambda, ast.FunctionDef)) and n is not fn for n in ast.walk(fn))
+        if other_calls or not recursion_free:
+            chk.ob("F1-extraction", fn, qname, None,
+                   f"the implicit kernel contains no loop of its own, but calls {other_calls[:4]} / defines functions: whether "
+                   "the fixed-point iteration is there is not decided", file=modname, func=qname)
+            return
         chk.ob("F1-fixed-point-map", fn, qname, False,
-               "the implicit kernel contains no iteration at all (no while loop, no loop left by a break): the foot is not "
+               "the implicit kernel contains no iteration at all (no while loop, no loop left by a break, and no call of "
+               "anything but the spline evaluators, f_eq and scalar functions): the foot is not "
                "the converged solution of the implicit trapezoidal rule", file=modname, func=qname)
         return
     if isinstance(found, str):
@@ -983,6 +1572,7 @@ def check_implicit(chk, mod, modname=U.ADVK, qname=IMPL):
         return
     loop_stmt, w, do_while, _ranged = found
     k = fn.body.index(loop_stmt)
+    conv = _pass_conventions(fn, k, w.body)
     # ---- phase 1: predictor (statements before the while)
     pre = ast.FunctionDef(name="_pre", args=fn.args, body=fn.body[:k], decorator_list=[], lineno=fn.lineno)
     ex, args = setup(pre, mod, (qname,))
@@ -991,34 +1581,44 @@ def check_implicit(chk, mod, modname=U.ADVK, qname=IMPL):
         S = spec_symbols(args)
         i, j = S["i"], S["j"]
         got1 = {n: cell(ex, n, [i, j]) for n in ("endPts_k1_q", "endPts_k1_r")}
-    except Undecided as e:
+    except _NOT_EXTRACTED as e:
         chk.ob("F1-extraction", fn, qname + " (predictor)", None, f"outside the extractable fragment: {e}", file=modname, func=qname)
         return
     sweep_ranges(chk, fn, [(fn.body[:k + 1], ex.env)], args, modname, qname)
     T0 = trace_spec(S)
+    # (the initial iterate is what the prologue leaves in the arrays that carry the iterate: same convention as the pass)
     compare(chk, "F1-predictor", fn, "theta* = theta_i - (d_r phi/r_j) dt/B0 (initial iterate)",
-            Wrap(got1["endPts_k1_q"]), T0["th1"], qname, args, wrong_traces(S, "th1"))
+            Wrap(got1["endPts_k1_q"]), T0["th1"], qname, args, wrong_traces(S, "th1"), precond=conv[4])
     compare(chk, "F1-predictor", fn, "r* = r_j + (d_theta phi/r_j) dt/B0 (initial iterate)",
-            got1["endPts_k1_r"], T0["r1"], qname, args, wrong_traces(S, "r1"))
+            got1["endPts_k1_r"], T0["r1"], qname, args, wrong_traces(S, "r1"), precond=conv[4])
     convergence_test(chk, w, ex, args, modname, qname, do_while=do_while, counters=_pass_counters(w))
     # ---- phase 2: one iteration of the map, from a generic iterate (Q, R)
     body = w.body
     loops = [n for n in body if isinstance(n, ast.For)]
     try:
         passes = node_sweeps(loops, body)
-    except Undecided as e:
+    except _NOT_EXTRACTED as e:
         chk.ob("F1-extraction", w, qname + " (iteration)", None, f"{e}: not extracted", file=modname, func=qname)
         return
     before = body[:body.index(loops[0])]
     after = body[body.index(loops[-1]) + 1:]
     carried = Symbol("norm_carried", real=True)
-
+    pass_stored, pass_scalars, pro_stored, carried_arrays, convention = conv
     def loop_entry(angle_reduced=False):
         """state at the start of a pass: every local as after the predictor phase; the current iterate is generic (with
         `angle_reduced`: a generic angle in [0, 2 pi), see the invariant below); the statements before the sweeps done"""
         e2, _a2 = setup(ast.FunctionDef(name="_it", args=fn.args, body=[], decorator_list=[], lineno=fn.lineno), mod, (qname,))
         for nm, val in ex.env.items():
-            if nm not in ("endPts_k1_q", "endPts_k1_r"):
+            if nm in ("endPts_k1_q", "endPts_k1_r"):
+                continue
+            if isinstance(val, Arr) and nm in pass_stored:
+                # AUDIT: an array that the pass writes has, at the start of an ARBITRARY pass, the content the previous pass
+                # left (not the content after the prologue): unknown.  A read of it before the pass writes it shows up in
+                # the formulas as the unwritten cell `<array>(i, j)` (see `stale` in compare).
+                e2.env[nm] = Arr(nm)
+            elif isinstance(val, sp.Basic) and nm in pass_scalars and nm != "norm":
+                e2.env[nm] = Symbol(nm + "_carried", real=True)      # a scalar that the pass re-assigns: unknown at entry
+            else:
                 e2.env[nm] = val.copy() if isinstance(val, Arr) else val
         q_, r_ = Arr("endPts_k1_q"), Arr("endPts_k1_r")
         if angle_reduced:
@@ -1030,7 +1630,7 @@ def check_implicit(chk, mod, modname=U.ADVK, qname=IMPL):
     # the measure restarts from zero in every pass (it is a maximum: without the reset it could never decrease)
     try:
         ex2, Q, R = loop_entry()
-    except Undecided as e:
+    except _NOT_EXTRACTED as e:
         chk.ob("F1-extraction", w, qname + " (iteration prologue)", None, f"outside the extractable fragment: {e}",
                file=modname, func=qname)
         return
@@ -1041,6 +1641,20 @@ def check_implicit(chk, mod, modname=U.ADVK, qname=IMPL):
     elif reset is carried:
         anywhere = any(isinstance(n, ast.Name) and n.id == "norm" and isinstance(n.ctx, ast.Store)
                        for st in before + after for n in ast.walk(st))
+        # AUDIT: "not reset" presupposes that every store of the measure inside the sweeps ACCUMULATES (its value or one of
+        # its guards reads the measure: `if d > norm: norm = d`, `norm = max(norm, d)`).  A store that does not read it
+        # (`if i == 0 and j == 0: norm = 0.0`, a fresh value) may be the reset, written in another place -> UNDECIDED.
+        for lp_ in loops:
+            for st_ in ast.walk(lp_):
+                if isinstance(st_, (ast.Assign, ast.AugAssign, ast.AnnAssign)) and any(
+                        isinstance(t_, ast.Name) and t_.id == "norm"
+                        for t_ in (st_.targets if isinstance(st_, ast.Assign) else [st_.target])):
+                    reads = isinstance(st_, ast.AugAssign) or any(
+                        isinstance(x, ast.Name) and x.id == "norm" for x in ast.walk(st_.value))
+                    reads = reads or any(isinstance(x, ast.Name) and x.id == "norm" for g_ in guards_of(st_, stop=lp_)
+                                         for x in ast.walk(g_[0] if isinstance(g_, tuple) else g_))
+                    if not reads:
+                        anywhere = True
         chk.ob("F1-convergence-reset", w, "norm = 0 at the start of each pass", None if anywhere else False,
                "the measure is assigned conditionally: not decided" if anywhere else
                "the measure (a running maximum) is not reset at the start of a pass: it can never fall below its "
@@ -1049,6 +1663,9 @@ def check_implicit(chk, mod, modname=U.ADVK, qname=IMPL):
         chk.ob("F1-convergence-reset", w, "norm = 0 at the start of each pass", True,
                "the maximum over the nodes restarts from zero in every pass", file=modname, func=qname)
     elif isinstance(reset, sp.Basic) and reset.is_number and reset.is_positive:
+        # AUDIT: the statements of the pass before the sweeps leave a positive NUMBER in the measure, and the measure is a
+        # running maximum (rule F1-convergence-measure): the statement "never below that number" is true for every tol
+        # below it, and tol is the caller's choice
         chk.ob("F1-convergence-reset", w, "norm = 0 at the start of each pass", False,
                f"the measure restarts from {reset} > 0: it never falls below that value whatever the iterates do",
                file=modname, func=qname)
@@ -1061,10 +1678,12 @@ def check_implicit(chk, mod, modname=U.ADVK, qname=IMPL):
         e2.env["norm"] = n_in
         e2.env["i"], e2.env["j"] = i, j
         for outer, pre_, inner in passes:
-            e2.env[outer.target.id] = i
+            tq, tr = _sweep_axes(outer, inner)
+            e2.env[tq], e2.env[tr] = i, j
+            if pre_ and any(isinstance(n, ast.Name) and n.id == inner.target.id for st in pre_ for n in ast.walk(st)):
+                raise Undecided("the inner counter is used before the inner loop")
             for st in pre_:
                 e2.stmt(st)
-            e2.env[inner.target.id] = j
             e2.block(inner.body)
         g2 = {n: cell(e2, n, [i, j]) for n in ("endPts_k1_q", "endPts_k1_r", "endPts_k2_q", "endPts_k2_r")}
         gn = e2.env.get("norm")
@@ -1080,7 +1699,7 @@ def check_implicit(chk, mod, modname=U.ADVK, qname=IMPL):
         if _always_reduced(got1["endPts_k1_q"]) and _always_reduced(got2["endPts_k1_q"]):
             ex2, Q, R = loop_entry(angle_reduced=True)
             got2, got_norm = one_pass(ex2)
-    except Undecided as e:
+    except _NOT_EXTRACTED as e:
         chk.ob("F1-extraction", w, qname + " (iteration)", None, f"outside the extractable fragment: {e}", file=modname, func=qname)
         return
     th_k = Wrap(Q.fn(i, j))
@@ -1097,14 +1716,26 @@ def check_implicit(chk, mod, modname=U.ADVK, qname=IMPL):
     wr_r = wrong_traces(S, "r2", x_k=(th_k, r_k), clip=True) + [
         ("the new radius is not clipped to the radial domain [r_0, r_max]", trace_spec(S, x_k=(th_k, r_k), clip=False)["r2"]),
         (raw_angle, T_raw["r2"])]
+    # a work array that neither the prologue nor (on this path) the pass has written holds what the previous CALL left
+    stale_it = tuple(a_ for a_ in STALE_IT if a_ not in pro_stored or a_ not in pass_stored)
     compare(chk, "F1-fixed-point-map", w, "theta_{k+1} = W(theta_i - 1/2 (F_th(x_0) + F_th(x_k)) dt/B0)",
-            got2["endPts_k1_q"], th_n, qname, args, wr_th, STALE_IT)
+            got2["endPts_k1_q"], th_n, qname, args, wr_th, stale_it, precond=convention)
     compare(chk, "F1-fixed-point-map", w, "r_{k+1} = clip(r_j + 1/2 (F_r(x_0) + F_r(x_k)) dt/B0)",
-            got2["endPts_k1_r"], r_n, qname, args, wr_r, STALE_IT)
-    compare(chk, "F1-fixed-point-map", w, "endPts_k2 holds the new iterate (used by the fill)",
-            got2["endPts_k2_r"], r_n, qname, args, wr_r, STALE_IT)
-    compare(chk, "F1-fixed-point-map", w, "endPts_k2_q holds the new angle (used by the fill)",
-            got2["endPts_k2_q"], th_n, qname, args, wr_th, STALE_IT)
+            got2["endPts_k1_r"], r_n, qname, args, wr_r, stale_it, precond=convention)
+    # which arrays the fill phase reads the converged foot from (today endPts_k2_*; endPts_k1_* holds the same point)
+    fill_reads = {n.value.id for st in fn.body[k + 1:] for n in ast.walk(st)
+                  if isinstance(n, ast.Subscript) and isinstance(n.value, ast.Name) and isinstance(n.ctx, ast.Load)
+                  and n.value.id in WORK}
+    fill_conv = None
+    if fill_reads <= {"endPts_k2_q", "endPts_k2_r"}:
+        compare(chk, "F1-fixed-point-map", w, "endPts_k2 holds the new iterate (used by the fill)",
+                got2["endPts_k2_r"], r_n, qname, args, wr_r, stale_it, precond=convention)
+        compare(chk, "F1-fixed-point-map", w, "endPts_k2_q holds the new angle (used by the fill)",
+                got2["endPts_k2_q"], th_n, qname, args, wr_th, stale_it, precond=convention)
+    elif fill_reads <= {"endPts_k1_q", "endPts_k1_r"}:
+        fill_conv = "k1"            # the fill reads the iterate itself, decided by the two rules above
+    else:
+        fill_conv = "?"
     # convergence measure: max over both coordinates, periodic distance in theta, of (new iterate - old iterate); written
     # on the new iterate the kernel computed (its correctness is the rule above: a wrong map is reported once)
     th_n, r_n = unify_shapes(got2["endPts_k1_q"], args), unify_shapes(got2["endPts_k1_r"], args)
@@ -1146,7 +1777,16 @@ def check_implicit(chk, mod, modname=U.ADVK, qname=IMPL):
                 measure_on(th_2, r_2)))
     except Undecided:
         pass
-    compare(chk, "F1-convergence-measure", w, "norm = max(norm, periodic |dtheta|, |dr|)", got_norm, m2, qname, args, other + [
+    # the measure taken on the new radius BEFORE clipping, while the iterate that is carried on is the clipped one
+    r_unclipped = trace_spec(S, x_k=(th_k, r_k), clip=False)["r2"]
+    other.append((
+        "the measure is the distance between the old iterate and the new radius BEFORE it is clipped to [r_0, r_max], while "
+        "the iterate the next pass starts from is the clipped one: for a characteristic that wants to leave the radial domain "
+        "the measure stays equal to the overshoot beyond the boundary in every pass, never falls below tol, and the while "
+        "loop does not terminate (a non-termination of its own, not the missing bound on the number of passes)",
+        measure_on(th_n, r_unclipped)))
+    compare(chk, "F1-convergence-measure", w, "norm = max(norm, periodic |dtheta|, |dr|)", got_norm, m2, qname, args,
+            precond=convention, wrong=other + [
         ("the measure is identically its incoming value: the change of the iterate does not enter it (are the new and "
          "the old iterate the same cells?), so the loop stops after its first pass", n_in),
         ("the angular change is not measured as a periodic distance: an iterate that crosses theta = 0 looks 2 pi away "
@@ -1166,12 +1806,21 @@ def check_implicit(chk, mod, modname=U.ADVK, qname=IMPL):
     if _always_reduced(got2["endPts_k2_q"]) and isinstance(ex3.env.get("endPts_k2_q"), Arr):
         a_ = ex3.env["endPts_k2_q"]
         a_.generic = (lambda ix, f_=a_.fn: Wrap(f_(*ix)))
+    if fill_conv == "?":
+        chk.ob("F1-boundary-fill", fn, "f[i,j] = fill(theta_foot, r_foot)", None,
+               f"the fill phase reads the work arrays {sorted(fill_reads)}: which of them hold the converged foot is not decided",
+               file=modname, func=qname)
+        return
+    foot_q, foot_r = ("endPts_k1_q", "endPts_k1_r") if fill_conv == "k1" else ("endPts_k2_q", "endPts_k2_r")
+    if fill_conv == "k1" and _always_reduced(got2["endPts_k1_q"]) and isinstance(ex3.env.get("endPts_k1_q"), Arr):
+        a_ = ex3.env["endPts_k1_q"]
+        a_.generic = (lambda ix, f_=a_.fn: Wrap(f_(*ix)))
     try:
         ex3.run()
         got_f = cell(ex3, "f", [i, j])
-        thf = ex3.env["endPts_k2_q"].fn(i, j)
-        rf = ex3.env["endPts_k2_r"].fn(i, j)
-    except (Undecided, KeyError, AttributeError) as e:
+        thf = ex3.env[foot_q].fn(i, j)
+        rf = ex3.env[foot_r].fn(i, j)
+    except _NOT_EXTRACTED as e:
         chk.ob("F1-extraction", fn, qname + " (fill)", None, f"outside the extractable fragment: {e}", file=modname, func=qname)
         return
     sweep_ranges(chk, fn, [(fn.body[k + 1:], ex3.env)], args3, modname, qname)
@@ -1233,12 +1882,22 @@ def work_roles_at_call(chk, c0, kname, b, work_exprs, known, where):
     for f, a in b.items():
         if f in WORK:
             got.setdefault(src(a), []).append(f)
+    # AUDIT: "two parameters share an array -> one overwrites the other" is true when the kernel really keeps a value in
+    # each of them (writes it and reads it again): `live` = the parameters the general kernel behind this wrapper both
+    # writes and reads.  A parameter the kernel no longer uses (kept for the signature) may share storage: UNDECIDED.
+    live = _KERNEL_LIVE.get(kname)
     for f, a in b.items():
         s_ = src(a)
         what = f"{kname}: {f} <- {s_}"
         node = a if hasattr(a, "lineno") else c0
         if f in WORK and s_ not in known:
             shared = [g for g in got[s_] if g != f]
+            if shared and (live is None or f not in live or shared[0] not in live):
+                chk.ob("E2-argument-role", node, what, None,
+                       f"parameters `{f}` and `{shared[0]}` receive the same array `{s_}`, and the kernel does not both write and "
+                       "read each of them (or it could not be examined): whether one overwrites a value the other still "
+                       "needs is not decided", **where)
+                continue
             if not shared:
                 chk.ob("E2-argument-role", node, what, True,
                        f"work parameter `{f}` receives `{s_}`, which no other parameter of the call receives", **where)
@@ -1261,10 +1920,15 @@ def work_roles_at_call(chk, c0, kname, b, work_exprs, known, where):
                        "overwrites the other")
             chk.ob("E2-argument-role", node, what, False, why, **where)
         elif f not in WORK and s_ in work_exprs:
-            chk.ob("E2-argument-role", node, what, False,
+            wf_ = [g for g in got.get(s_, [])]
+            chk.ob("E2-argument-role", node, what, False if (live is not None and any(g in live for g in wf_)) else None,
                    f"`{s_}` is handed to the same call as a work array (uninitialised scratch storage that the kernel "
                    f"overwrites) and as `{f}`", **where)
         # a work parameter that receives an argument of another known role is reported by the role table (check_roles)
+
+
+# wrapper name -> parameters that the general kernel behind it both writes and reads (filled by call_site_roles)
+_KERNEL_LIVE: dict = {}
 
 
 def _pure_path(n):
@@ -1451,6 +2115,117 @@ def _arm_bindings(arm, fn_stores, tables):
     return out
 
 
+def property_cases(fn, attr):
+    """the value of `self.<attr>` inside the method `fn` when <attr> is a read-only property of the class of `fn` or of a
+    base class written in the same module: [(condition text or None, value node)], one entry per `return` of the property,
+    with the property's own local aliases substituted.  The property must be in the fragment
+        [docstring]; name = <pure path> ...; return E          |   ...; if T: return E1 [else:] return E2
+    and be the ONLY definition of that name in the class and its bases (no setter, no attribute of that name stored
+    anywhere in the module through `self`).  None when any of this is not established (the caller then does not follow
+    the attribute at all)."""
+    import copy
+    cls = parent(fn)
+    if not isinstance(cls, ast.ClassDef):
+        return None
+    modn = parent(cls)
+    classes = {c.name: c for c in getattr(modn, "body", []) if isinstance(c, ast.ClassDef)}
+    todo, seen, defs = [cls], set(), []
+    while todo:
+        c = todo.pop()
+        if c.name in seen:
+            continue
+        seen.add(c.name)
+        for st in c.body:
+            if isinstance(st, ast.FunctionDef) and st.name == attr:
+                defs.append(st)
+            elif isinstance(st, (ast.Assign, ast.AnnAssign)) and any(
+                    src(t) == attr for t in (st.targets if isinstance(st, ast.Assign) else [st.target])):
+                return None
+        for b_ in c.bases:
+            if isinstance(b_, ast.Name) and b_.id in classes:
+                todo.append(classes[b_.id])
+            elif not (isinstance(b_, ast.Name) and b_.id == "object"):
+                return None                      # a base class that is not written in this module
+    if len(defs) != 1:
+        return None
+    d = defs[0]
+    if [src(x) for x in d.decorator_list] != ["property"] or len(d.args.args) != 1:
+        return None
+    for n in ast.walk(modn):
+        if isinstance(n, ast.Attribute) and n.attr == attr and isinstance(n.ctx, (ast.Store, ast.Del)):
+            return None
+    body = [st for st in d.body if not (isinstance(st, ast.Expr) and isinstance(st.value, ast.Constant))]
+    al = {}
+    while body and isinstance(body[0], ast.Assign) and len(body[0].targets) == 1 and isinstance(body[0].targets[0], ast.Name) \
+            and _pure_path(body[0].value):
+        al[body[0].targets[0].id] = body[0].value
+        body = body[1:]
+    stores = {n.id for st in d.body for n in ast.walk(st) if isinstance(n, ast.Name) and isinstance(n.ctx, ast.Store)}
+    if stores != set(al):
+        return None
+
+    def value(e):
+        if e is None or any(isinstance(x, (ast.Call, ast.Lambda, ast.Starred, ast.NamedExpr, ast.Await, ast.Yield))
+                            for x in ast.walk(e)):
+            return None
+        return _Subst(al).visit(copy.deepcopy(e))
+    out = None
+    if len(body) == 1 and isinstance(body[0], ast.Return):
+        out = [(None, value(body[0].value))]
+    elif len(body) in (1, 2) and isinstance(body[0], ast.If) and len(body[0].body) == 1 and isinstance(body[0].body[0], ast.Return):
+        other = body[0].orelse if len(body) == 1 else body[1:]
+        if len(other) == 1 and isinstance(other[0], ast.Return) and (len(body) == 1 or not body[0].orelse):
+            t = src(_Subst(al).visit(copy.deepcopy(body[0].test)))
+            out = [(t, value(body[0].body[0].value)), (f"not ({t})", value(other[0].value))]
+    if out is None or any(v is None for _t, v in out):
+        return None
+    return out
+
+
+def splice_property_tuples(fn, call):
+    """copy of `call` in which `*self.<attr>` is replaced by the elements of the tuple the property <attr> returns, when the
+    property has ONE return and it is a tuple display (see property_cases); `call` itself otherwise"""
+    import copy
+    if not any(isinstance(a, ast.Starred) and isinstance(a.value, ast.Attribute) and src(a.value.value) == "self" for a in call.args):
+        return call
+    c = copy.copy(call)
+    args = []
+    for a in call.args:
+        if isinstance(a, ast.Starred) and isinstance(a.value, ast.Attribute) and src(a.value.value) == "self":
+            cases = property_cases(fn, a.value.attr)
+            if cases is not None and len(cases) == 1 and isinstance(cases[0][1], ast.Tuple) \
+                    and not any(isinstance(x, ast.Starred) for x in cases[0][1].elts):
+                for x in cases[0][1].elts:
+                    for y in ast.walk(x):
+                        ast.copy_location(y, a)
+                    args.append(x)
+                continue
+        args.append(a)
+    c.args = args
+    return c
+
+
+def _bind_property_case(call, attr, tup, k):
+    """copy of the call `self.<attr>[k](...)` for one case of the property: the callee is element k of the case's tuple and
+    every `self.<attr>[j]` in the argument list is element j"""
+    import copy
+
+    class _Case(ast.NodeTransformer):
+        def visit_Subscript(self, n):
+            if isinstance(n.value, ast.Attribute) and n.value.attr == attr and src(n.value.value) == "self":
+                j = _const_index(n.slice)
+                if isinstance(j, int) and -len(tup.elts) <= j < len(tup.elts):
+                    return copy.deepcopy(tup.elts[j])
+            self.generic_visit(n)
+            return n
+    c = _Case().visit(copy.deepcopy(call))
+    for n in ast.walk(c):
+        ast.copy_location(n, call)
+    ast.fix_missing_locations(c)
+    c._parent = parent(call)
+    return c
+
+
 def selected_kernel_calls(fn, knames):
     """the kernel calls of `fn`, found by what is called and not by how the call is written:
       K(...)                                                       a direct call
@@ -1473,6 +2248,24 @@ def selected_kernel_calls(fn, knames):
             elif isinstance(v, ast.IfExp) and all(isinstance(x, ast.Name) and x.id in knames for x in (v.body, v.orelse)):
                 sel.setdefault(n.targets[0].id, []).append(n)
     for c in ast.walk(fn):
+        if isinstance(c, ast.Call) and isinstance(c.func, ast.Subscript) and isinstance(c.func.value, ast.Attribute) \
+                and src(c.func.value.value) == "self" and isinstance(_const_index(c.func.slice), int):
+            # `self.<property>[k](...)`: the property returns, case by case, a tuple whose element k is a kernel -> one call
+            # site per case, every `self.<property>[j]` of the argument list replaced by element j of that case
+            attr, k_ = c.func.value.attr, _const_index(c.func.slice)
+            cases = property_cases(fn, attr)
+            if cases is None or not any(isinstance(v_, ast.Tuple) and 0 <= k_ < len(v_.elts) and isinstance(v_.elts[k_], ast.Name)
+                                        and v_.elts[k_].id in knames for _t, v_ in cases):
+                continue
+            unconditional = any(c is x for st in fn.body for x in ast.walk(st) if isinstance(st, ast.Expr))
+            if unconditional and all(isinstance(v_, ast.Tuple) and 0 <= k_ < len(v_.elts) and isinstance(v_.elts[k_], ast.Name)
+                                     and v_.elts[k_].id in knames and not any(isinstance(x, ast.Starred) for x in v_.elts)
+                                     for _t, v_ in cases) and len({v_.elts[k_].id for _t, v_ in cases}) == len(cases):
+                for _t, v_ in cases:
+                    out.append((v_.elts[k_].id, _bind_property_case(c, attr, v_, k_), {}))
+            else:
+                out.append((None, c, {}))
+            continue
         if not (isinstance(c, ast.Call) and isinstance(c.func, ast.Name)):
             continue
         if c.func.id in knames:
@@ -1480,6 +2273,25 @@ def selected_kernel_calls(fn, knames):
             continue
         g = c.func.id
         if g not in sel:
+            # `g, extra = self.<property>` at the top level of the function, the property returning, case by case, a tuple
+            # whose first element is a kernel: one call site per case, the other names bound to the other elements
+            unp = [st for st in fn.body if isinstance(st, ast.Assign) and len(st.targets) == 1
+                   and isinstance(st.targets[0], (ast.Tuple, ast.List)) and all(isinstance(t, ast.Name) for t in st.targets[0].elts)
+                   and any(t.id == g for t in st.targets[0].elts) and isinstance(st.value, ast.Attribute)
+                   and src(st.value.value) == "self"]
+            if len(unp) == 1 and stores.get(g) == 1 and unp[0].lineno < c.lineno and any(
+                    c is x for st in fn.body for x in ast.walk(st) if not isinstance(st, (ast.If, ast.For, ast.While))):
+                names = [t.id for t in unp[0].targets[0].elts]
+                cases = property_cases(fn, unp[0].value.attr)
+                if cases is not None and all(stores.get(n_) == 1 for n_ in names) and all(
+                        isinstance(v_, ast.Tuple) and len(v_.elts) == len(names) for _t, v_ in cases):
+                    k_ = names.index(g)
+                    if all(isinstance(v_.elts[k_], ast.Name) and v_.elts[k_].id in knames for _t, v_ in cases) \
+                            and len({v_.elts[k_].id for _t, v_ in cases}) == len(cases):
+                        for _t, v_ in cases:
+                            out.append((v_.elts[k_].id, c, {n_: e_ for n_, e_ in zip(names, v_.elts) if n_ != g}))
+                        continue
+                out.append((None, c, {}))
             continue
         defs = sel[g]
         if stores.get(g) != len(defs):
@@ -1689,6 +2501,15 @@ def work_array_storage(chk, cls, actuals):
                 if isinstance(t, (ast.Tuple, ast.List)):
                     if isinstance(st.value, (ast.Tuple, ast.List)) and len(st.value.elts) == len(t.elts):
                         pairs += list(zip(t.elts, st.value.elts))
+                    elif isinstance(st.value, (ast.GeneratorExp, ast.ListComp)) and _alloc_call(st.value.elt) \
+                            and not any(isinstance(e_, ast.Starred) for e_ in t.elts):
+                        # `a, b, c = (alloc(...) for _ in range(3))`: the comprehension evaluates its element expression once
+                        # per item, so every target receives an allocation of its own
+                        for k_, e_ in enumerate(t.elts):
+                            ts = src(e_)
+                            allocs.setdefault(ts, []).append(st.value.elt)
+                            if ts in exprs:
+                                desc.setdefault(ts, []).append((("fresh", (id(st.value), k_), m.name), st))
                     else:
                         for k_, e_ in enumerate(t.elts):       # unpacking an array yields its sub-arrays
                             pairs.append((e_, ast.Subscript(value=st.value, slice=ast.Constant(value=k_), ctx=ast.Load())))
@@ -1784,6 +2605,9 @@ def work_array_storage(chk, cls, actuals):
         return (f"{a} and {b} are the same storage: the kernels keep different quantities in them during one "
                 "sweep (drift at the node / at the second point, first- and second-stage end points), one overwrites the other")
 
+    # AUDIT: "same storage" is stated only for: one name assigned from the other; one allocation bound to both (chained
+    # assignment); two entries of `[alloc] * n`; the same entry / field of one container.  It matters only between parameters
+    # in which the kernel keeps a value at the same time (`dead`, below; the explicit kernel's two end points: undecided).
     for a in exprs:
         node = desc[a][0][1] if a in desc else init
         at = dict(file=U.ADV, func="PoloidalAdvection.__init__" if a in desc and desc[a][0][0][-1] != "step"
@@ -1793,6 +2617,11 @@ def work_array_storage(chk, cls, actuals):
         what = f"{a}: storage of its own"
         if same:
             why = why_same(a, same[0])
+            # AUDIT: shared storage matters only between parameters in which the kernel keeps a value (see _KERNEL_LIVE)
+            dead = [x for x in (a, same[0]) if len(actuals[x]) > 2 and not any(
+                f_ in (_KERNEL_LIVE.get(k_) or ()) for f_ in actuals[x][1] for k_ in actuals[x][2])]
+            if dead:
+                why = None
             chk.ob("E2-work-array-storage", node, what, False if why else None, why or
                    f"{a} and {same[0]} are the same storage and only the explicit kernel receives them, as first- and second-stage "
                    "end points: whether it needs both at once is not decided by this rule", **at)
@@ -2007,6 +2836,25 @@ def potential_cache_agreement(chk, cls):
             continue
         others = sorted({f"{w[1]} (in {w[0].name})" for w in writes if w[0].name != "__init__"
                          and any(r_[0] is w[0] and r_[1] == w[1] for r_ in reads)})
+        # AUDIT: "no method ever interpolates a potential into <root>" is established for the methods written in this class
+        # body.  It is true of the program only if the storage cannot be filled from elsewhere: (1) the class has no base
+        # class / decorator (inherited or generated methods are not examined), (2) no code of the module outside the class
+        # reaches the attribute through another receiver (`adv._phiSplines[...]`), (3) the attribute is not a property or
+        # class-level descriptor, (4) no method uses getattr/setattr/vars/__dict__.
+        attr_ = root[5:]
+        in_cls = {id(n) for n in ast.walk(cls)}
+        outside = [n for n in ast.walk(parent(cls) or cls) if isinstance(n, ast.Attribute) and n.attr == attr_ and id(n) not in in_cls]
+        descriptor = any(isinstance(st, ast.FunctionDef) and st.name == attr_ for st in cls.body) or any(
+            isinstance(st, (ast.Assign, ast.AnnAssign)) and any(src(t) == attr_ for t in (
+                st.targets if isinstance(st, ast.Assign) else [st.target])) for st in cls.body)
+        dynamic = any(isinstance(n, ast.Call) and src(n.func) in ("getattr", "setattr", "vars") for n in ast.walk(cls)) or any(
+            isinstance(n, ast.Attribute) and n.attr == "__dict__" for n in ast.walk(cls))
+        if cls.bases or cls.decorator_list or outside or descriptor or dynamic:
+            chk.ob("E3-potential-cache-agreement", c, what, None,
+                   f"no method written in the class body interpolates a potential into {root}, but the class has base classes / "
+                   "decorators, or the attribute is reached from outside the class, is a descriptor, or attributes are "
+                   "accessed dynamically: whether it is filled elsewhere is not decided", **where)
+            continue
         chk.ob("E3-potential-cache-agreement", c, what, False,
                f"{m.name} hands `{src(agree.bind_call(c, sformals)['phi'])}` to step() as the potential without computing it, and "
                f"no method of the class ever interpolates a potential into {root}"
@@ -2015,6 +2863,232 @@ def potential_cache_agreement(chk, cls):
                + f": {root} keeps the coefficients of the new spline objects of `{src(created[0])[:80]}`, so after "
                f"gridStep(grid, phi, dt) a call of {m.name} does not trace the characteristics of that phi (coefficients still "
                "zero: no drift at all, f is left unchanged)", **where)
+
+
+# ---------------------------------------------------------------------------------------------------------
+# "one step REPLACES f": the array the kernel writes is the array the caller of step() handed in
+# ---------------------------------------------------------------------------------------------------------
+
+# numpy forms whose result is ALWAYS new storage (keyword `copy=False` excepted, see _copy_kind)
+_COPY_ALWAYS = {"copy": "always a copy", "array": "numpy.array copies by default", "astype": "astype copies by default",
+                "flatten": "always a copy", "asfortranarray": "a copy of every array that is not Fortran-contiguous (every "
+                "C-ordered two-dimensional block)"}
+# forms whose result is the argument itself for some inputs and new storage for the others
+_COPY_SOMETIMES = {
+    "ascontiguousarray": "the argument itself only when it already is a C-contiguous array of the requested dtype, a copy "
+                         "for every other memory layout (transposed view, slice of a padded or differently ordered block, "
+                         "Fortran order) or dtype",
+    "require": "the argument itself only when it already satisfies the requirements, a copy otherwise",
+}       # (`reshape` to the same shape is always a view, `ravel` is no argument for a two-dimensional kernel: not modelled)
+# forms that return the argument itself (an ndarray) when no dtype / order is requested
+_IDENTITY_IF_BARE = ("asarray", "asanyarray")
+
+
+def _copy_kind(v, root):
+    """how the value expression `v` relates to the array named `root`:
+      ("same", None)       the array itself (the name, `asarray(root)` without dtype/order)
+      ("always", why)      new storage holding a copy of root's values whatever root is
+      ("sometimes", why)   root itself for some memory layouts / dtypes, a copy for the others
+      (None, None)         not one of the modelled forms (a view, an unrelated value, ...)"""
+    if isinstance(v, ast.Name):
+        return ("same", None) if v.id == root else (None, None)
+    if isinstance(v, ast.BinOp):
+        if any(isinstance(x, ast.Name) and x.id == root for x in (v.left, v.right)):
+            return "always", "an arithmetic expression creates a new array"
+        return None, None
+    if not isinstance(v, ast.Call):
+        return None, None
+    fname = v.func.attr if isinstance(v.func, ast.Attribute) else v.func.id if isinstance(v.func, ast.Name) else None
+    if fname is None or any(isinstance(a, ast.Starred) for a in v.args) or any(k.arg is None for k in v.keywords):
+        return None, None
+    recv_is_root = isinstance(v.func, ast.Attribute) and isinstance(v.func.value, ast.Name) and v.func.value.id == root
+    arg_is_root = bool(v.args) and isinstance(v.args[0], ast.Name) and v.args[0].id == root and \
+        (isinstance(v.func, ast.Name) or (isinstance(v.func, ast.Attribute) and src(v.func.value) in ("np", "numpy")))
+    if not (recv_is_root or arg_is_root):
+        return None, None
+    kws = {k.arg: k.value for k in v.keywords}
+    if "copy" in kws:                 # copy=False / copy=None: "only if needed" -> not decided here
+        return None, None
+    extra = len(v.args) - (1 if arg_is_root else 0) + len(kws)
+    if fname in _IDENTITY_IF_BARE and arg_is_root:
+        if extra == 0:
+            return "same", None
+        return "sometimes", (f"numpy.{fname} with a dtype / order returns the argument itself only when it already has them, a "
+                             "converted copy otherwise")
+    if fname in _COPY_ALWAYS and _COPY_ALWAYS[fname]:
+        return "always", _COPY_ALWAYS[fname]
+    if fname in _COPY_SOMETIMES:
+        return "sometimes", _COPY_SOMETIMES[fname]
+    return None, None
+
+
+def _stores_of(fn, name):
+    """statements of `fn` that (re)bind the local name `name` -> [(statement, value node or None)]"""
+    out = []
+    for st in ast.walk(fn):
+        if isinstance(st, ast.Assign):
+            for t in st.targets:
+                if isinstance(t, ast.Name) and t.id == name:
+                    out.append((st, st.value))
+                elif isinstance(t, (ast.Tuple, ast.List)) and any(isinstance(x, ast.Name) and x.id == name for x in ast.walk(t)):
+                    out.append((st, None))
+        elif isinstance(st, (ast.AugAssign, ast.AnnAssign)) and isinstance(st.target, ast.Name) and st.target.id == name:
+            out.append((st, st.value if isinstance(st, ast.AnnAssign) else None))
+        elif isinstance(st, ast.NamedExpr) and st.target.id == name:
+            out.append((st, st.value))
+        elif isinstance(st, (ast.For, ast.comprehension)) and any(
+                isinstance(x, ast.Name) and x.id == name for x in ast.walk(st.target)):
+            out.append((st, None))
+        elif isinstance(st, ast.With) and any(i.optional_vars is not None and any(
+                isinstance(x, ast.Name) and x.id == name for x in ast.walk(i.optional_vars)) for i in st.items):
+            out.append((st, None))
+    return out
+
+
+def _writes_back(fn, after_line, into, values_of):
+    """a statement after line `after_line` that may copy the array named `values_of` into storage reached through one of
+    the names `into` (`X[...] = v`, `np.copyto(X, v)`, `X[...] = <anything mentioning v>`)"""
+    for st in ast.walk(fn):
+        if getattr(st, "lineno", 0) <= after_line:
+            continue
+        if isinstance(st, (ast.Assign, ast.AugAssign)):
+            tg = st.targets if isinstance(st, ast.Assign) else [st.target]
+            for t in tg:
+                if isinstance(t, ast.Subscript) and any(isinstance(x, ast.Name) and x.id in into for x in ast.walk(t.value)) \
+                        and any(isinstance(x, ast.Name) and x.id == values_of for x in ast.walk(st.value)):
+                    return st
+        if isinstance(st, ast.Call) and src(st.func).split(".")[-1] in ("copyto", "put", "place", "putmask") and st.args \
+                and any(isinstance(x, ast.Name) and x.id in into for x in ast.walk(st.args[0])):
+            return st
+    return None
+
+
+def result_in_place(chk, cls, fn, bound, aliases, where):
+    """E2-result-in-place: `step(f, ...)` documents "the result will be stored here" and gridStep relies on it (it hands
+    a view of the distribution's block to step() and drops the reference).  The array bound to the kernel's output
+    parameter `f` must therefore be the very array object the caller passed - or, if step() works on another array, its
+    content must be copied back into the caller's array after the kernel call.
+    VIOLATED only when ALL of this is established: (1) the actual of the kernel's `f` is a local name of step(); (2) every
+    binding of that name is found (each one a plain assignment, no tuple / loop / with / augmented binding); (3) a binding
+    whose value is one of the modelled numpy forms that return new storage for every array (`copy`, `array`, `astype`,
+    arithmetic) or for some memory layouts / dtypes (`ascontiguousarray`, `asarray(.., dtype)`, `require`)
+    of the caller's array stands unconditionally at the top level of step() before the kernel call; (4) no statement after
+    the kernel call stores into (or copies to) the caller's array; (5) the kernel call is the last use of the copy.
+    Anything else that rebinds the name is UNDECIDED."""
+    params = [a.arg for a in fn.args.args][1:]
+    for kname, c0, c, formals, b in bound:
+        if "f" not in b:
+            continue
+        a = b["f"]
+        what = f"{kname}: f <- {src(a)} is the caller's array"
+        if not isinstance(a, ast.Name):
+            chk.ob("E2-result-in-place", c0, what, None,
+                   f"the output parameter `f` receives the expression `{src(a)}`: whether the kernel writes into the storage of the "
+                   "array handed to step() is not decided", **where)
+            continue
+        nm = a.id
+        stores = _stores_of(fn, nm)
+        if nm in params and not stores:
+            chk.ob("E2-result-in-place", c0, what, True,
+                   f"`{nm}` is the parameter of step(), never rebound in it: the kernel writes into the caller's array", **where)
+            continue
+        # the caller's array: the parameter `nm` itself (rebound later) or the parameter the local was computed from
+        verdict, why = None, None
+        top = {id(st) for st in fn.body}
+        known_same = nm in params
+        origin = nm if nm in params else None
+        copies = []
+        for st, v in stores:
+            if v is None or not isinstance(st, ast.Assign) or len(st.targets) != 1:
+                verdict, why = "und", f"`{src(st)[:60]}` binds `{nm}` in a way that is not followed"
+                break
+            kind, kw = (None, None)
+            for p in ([nm] if nm in params else params):
+                kind, kw = _copy_kind(v, p)
+                if kind is not None:
+                    if origin is None or nm not in params:
+                        origin = p
+                    break
+            if kind is None:
+                verdict, why = "und", (f"`{src(st)[:70]}` binds `{nm}` to a value whose relation to the array handed to step() is "
+                                        "not one of the modelled forms (a view? another array?)")
+                break
+            if kind == "same":
+                continue
+            if id(st) not in top or st.lineno >= c0.lineno:
+                verdict, why = "und", (f"`{src(st)[:70]}` may rebind `{nm}` to a copy, but not unconditionally before the kernel "
+                                        "call: which inputs reach it is not decided")
+                break
+            copies.append((st, kind, kw))
+        if verdict is None and not copies:
+            if known_same or origin is not None:
+                chk.ob("E2-result-in-place", c0, what, True,
+                       f"every binding of `{nm}` in step() denotes the array handed in by the caller itself", **where)
+            else:
+                chk.ob("E2-result-in-place", c0, what, None, f"what `{nm}` denotes is not decided", **where)
+            continue
+        if verdict is None:
+            st, kind, kw = copies[0]
+            # names through which the caller's array is still reachable after the rebinding: the parameter itself when the
+            # copy has a name of its own, and every name that an earlier plain assignment binds to the parameter
+            into = set() if nm in params else {origin}
+            for x in ast.walk(fn):
+                if isinstance(x, ast.Assign) and isinstance(x.value, ast.Name) and x.value.id == origin and x.lineno < st.lineno:
+                    into |= {t.id for t in x.targets if isinstance(t, ast.Name)}
+            back = _writes_back(fn, c0.lineno, into, nm) if into else None
+            in_kernel_calls = {id(x) for _k, cc, _c, _f, _b in bound for x in ast.walk(cc)}
+            later_use = [x for x in ast.walk(fn) if isinstance(x, ast.Name) and x.id == nm and isinstance(x.ctx, ast.Load)
+                         and x.lineno > getattr(c0, "end_lineno", c0.lineno) and id(x) not in in_kernel_calls]
+            returned = any(isinstance(x, ast.Return) and x.value is not None for x in ast.walk(fn))
+            if back is not None:
+                chk.ob("E2-result-in-place", c0, what, None,
+                       f"the kernel works on `{src(st)[:60]}` and `{src(back)[:60]}` may copy the result back: not decided", **where)
+                continue
+            if later_use or returned:
+                chk.ob("E2-result-in-place", c0, what, None,
+                       f"the kernel works on `{src(st)[:60]}`, which is used again after the kernel call (or step() returns a "
+                       "value): whether the result reaches the caller's array is not decided", **where)
+                continue
+            chk.ob("E2-result-in-place", st, what, False,
+                   f"`{src(st)[:80]}` rebinds `{nm}` before the kernel call, and numpy gives back "
+                   + ("new storage: " + kw if kind == "always" else kw)
+                   + f". The kernel then writes the advected values into that copy; nothing copies them back into the array "
+                   f"the caller handed to step() (no store into `{origin}` after the call, the copy is not used again, step() "
+                   "returns nothing), so "
+                   + ("the caller's array is never updated: the step does not replace f" if kind == "always" else
+                      "for every such argument (e.g. a transposed view, a slice `buf[:, :nr]` of a padded buffer, a Fortran-"
+                      "ordered or non-float64 array of shape (ntheta, nr)) the caller's array is left untouched: the step does "
+                      "not replace f, while a C-contiguous float64 argument still works"), **where)
+            continue
+        chk.ob("E2-result-in-place", c0, what, None, why, **where)
+    # the callers of step() inside the class: a temporary that is always a copy is advected and dropped
+    sformals = [a.arg for a in fn.args.args][1:]
+    for m in [st for st in cls.body if isinstance(st, ast.FunctionDef) and st is not fn]:
+        for c in [n for n in ast.walk(m) if isinstance(n, ast.Call) and src(n.func) == "self.step"]:
+            bb = agree.bind_call(c, sformals)
+            if bb is None or "f" not in bb or not isinstance(bb["f"], ast.Call):
+                continue
+            v = bb["f"]
+            fname = v.func.attr if isinstance(v.func, ast.Attribute) else getattr(v.func, "id", None)
+            kws = {k.arg for k in v.keywords}
+            if fname in ("copy", "array", "astype", "flatten") and "copy" not in kws and None not in kws and \
+                    (fname != "array" or (len(v.args) == 1 and isinstance(v.args[0], (ast.Call, ast.Name, ast.Subscript, ast.Attribute)))):
+                # assumptions: `.copy()` / `.astype(t)` / `np.array(x)` of an array is new storage (numpy semantics); the value
+                # is an argument expression, so no name keeps it after the call
+                chk.ob("E2-result-in-place", c, f"{m.name}: self.step({src(v)[:50]}, ...)", False,
+                       f"{m.name} hands `{src(v)[:80]}` to step(): a temporary copy ({_COPY_ALWAYS.get(fname)}) is advected and "
+                       "dropped when the call returns, the slice of the distribution it was copied from is never updated",
+                       file=U.ADV, func=f"PoloidalAdvection.{m.name}")
+
+
+def _same_object_in_ctor(cls, a, b):
+    """some assignment of the class binds the two attribute paths to one object (`self.A = self.B`, `self.A = self.B = X`)"""
+    for st in ast.walk(cls):
+        if isinstance(st, ast.Assign):
+            names = {src(t) for t in st.targets} | {src(st.value)}
+            if a in names and b in names:
+                return True
+    return False
 
 
 def call_site_roles(chk):
@@ -2032,6 +3106,14 @@ def call_site_roles(chk):
     aliases = local_aliases(fn)
     kwtables = local_kwtables(fn)
     axes = grid_axes(init)
+    # AUDIT: an attribute denotes the axis the constructor selected only while nothing else in the class rebinds it
+    cls_stores = {}
+    for n in ast.walk(cls):
+        if isinstance(n, ast.Attribute) and isinstance(n.ctx, ast.Store) and src(n.value) == "self":
+            cls_stores[n.attr] = cls_stores.get(n.attr, 0) + 1
+    axes = {k_: v_ for k_, v_ in axes.items() if cls_stores.get(k_[5:], 0) == 1}
+    if "eta_vals" not in [a_.arg for a_ in init.args.args]:
+        axes = {}
     prov = ctor_provenance(cls)
     const_recv = next((a_ for a_, p_ in prov.items() if p_ == "constants"), "self._constants")
     kernel_calls, bound = [], []
@@ -2056,7 +3138,20 @@ def call_site_roles(chk):
             continue
         c0, arm = calls[0]
         kernel_calls.append(c0)
-        formals = [a.arg for a in kmod.func(kname).args.args]
+        kfn = kmod.func(kname)
+        formals = [a.arg for a in kfn.args.args]
+        general = {"poloidal_advection_step_expl": EXPL, "poloidal_advection_step_impl": IMPL}.get(kname)
+        try:
+            _KERNEL_LIVE[kname] = _consumed_arrays(kmod.func(general))
+        except Exception:
+            _KERNEL_LIVE[kname] = None
+        if kfn.args.vararg or kfn.args.kwarg or kfn.args.kwonlyargs or getattr(kfn.args, "posonlyargs", None):
+            # AUDIT: the arity / role rules bind actuals to the plain positional-or-keyword parameters of the wrapper
+            chk.ob("E2-arity", c0, f"{kname}(...)", None,
+                   f"{kname} has *args / **kwargs / keyword-only / positional-only parameters: the binding of the actuals is "
+                   "not decided", **where)
+            continue
+        defaulted = set(formals[len(formals) - len(kfn.args.defaults):]) if kfn.args.defaults else set()
         # bindings made on the arm that selected this kernel: keyword tables and aliases of that case
         al2, kt2 = dict(aliases), dict(kwtables)
         for nm_, v_ in arm.items():
@@ -2066,7 +3161,7 @@ def call_site_roles(chk):
                     kt2[nm_] = items
             elif _pure_path(v_) and not any(stores_.get(x.id, 0) > 1 for x in ast.walk(v_) if isinstance(x, ast.Name)):
                 al2[nm_] = v_
-        c = resolved_call(c0, al2, kt2)
+        c = resolved_call(splice_property_tuples(fn, c0), al2, kt2)
         if c0.func.id != kname:
             c.func = ast.copy_location(ast.Name(id=kname, ctx=ast.Load()), c0.func)
         if any(isinstance(a, ast.Starred) for a in c.args) or any(k.arg is None for k in c.keywords):
@@ -2080,11 +3175,16 @@ def call_site_roles(chk):
                    f"argument list does not fit the signature ({len(c.args)} positional, keywords "
                    f"{[k.arg for k in c.keywords]} for {len(formals)} parameters): the call raises TypeError", **where)
             continue
-        missing = [f for f in formals if f not in b]
-        chk.ob("E2-arity", c0, f"{kname}(...)", not missing,
-               "every parameter of the kernel receives exactly one argument" if not missing else
-               f"parameters {missing} receive no argument: the call raises TypeError", **where)
+        # AUDIT: a parameter without an actual raises TypeError only if the wrapper declares no default for it
+        missing = [f for f in formals if f not in b and f not in defaulted]
+        dflt = [f for f in formals if f not in b and f in defaulted]
+        chk.ob("E2-arity", c0, f"{kname}(...)", (None if dflt else True) if not missing else False,
+               ("every parameter of the kernel receives exactly one argument" if not dflt else
+                f"parameters {dflt} receive no argument and take the default of the wrapper's signature: whether that is the "
+                "value the advection object was configured with is not decided") if not missing else
+               f"parameters {missing} receive no argument and have no default: the call raises TypeError", **where)
         bound.append((kname, c0, c, formals, b))
+    result_in_place(chk, cls, fn, bound, aliases, where)
     # ---- scratch storage: the expressions bound to the work parameters, whatever they are
     work_actuals = {}
     for kname, c0, c, formals, b in bound:
@@ -2117,6 +3217,9 @@ def call_site_roles(chk):
         if len(got_axes) == 2 and all(v is not None for v in got_axes.values()):
             ar, aq = got_axes["rPts"][0], got_axes["qPts"][0]
             defs = sorted({f"`{src(v[1])}`" for v in got_axes.values()})
+            # AUDIT: the axis of an attribute is computed from the constructor's own selection out of its parameter `eta_vals`,
+            # documented as the coordinates in the order (r, theta, z, v); the attribute is bound exactly once in the whole
+            # class; the formals rPts / qPts are the r / theta points of the kernels by the kernels' own use of them (F1 rules)
             if (ar, aq) == ("r", "theta"):
                 chk.ob("E2-point-order", c0, what, True,
                        f"{' and '.join(defs)}: `{src(b['rPts'])}` is the r axis and `{src(b['qPts'])}` the theta axis", **where)
@@ -2135,7 +3238,9 @@ def call_site_roles(chk):
             if f in ("rPts", "qPts") and got_axes.get(f) is not None:
                 continue
             if axis_of(a, axes) is not None:
-                chk.ob("E2-argument-role", c0, f"{kname}: {f} <- {s_}", False,
+                # AUDIT: an axis bound to a parameter that is not a point array is an error only while the wrapper still has
+                # its point parameters under the names rPts / qPts (otherwise `f` may BE the renamed point parameter)
+                chk.ob("E2-argument-role", c0, f"{kname}: {f} <- {s_}", False if {"rPts", "qPts"} <= set(formals) else None,
                        f"`{s_}` is the {axis_of(a, axes)[0]} axis of the grid and is bound to parameter `{f}`", **where)
                 continue
             general = {"poloidal_advection_step_expl": EXPL, "poloidal_advection_step_impl": IMPL}.get(kname)
@@ -2151,7 +3256,21 @@ def call_site_roles(chk):
                        **where)
         work_roles_at_call(chk, c0, kname, b, set(work_actuals), known | {s_ for s_ in map(src, b.values())
                                                                        if s_.startswith(const_recv + ".")}, where)
-        agree.check_roles(chk, U.ADV, "PoloidalAdvection.step", c, formals, table, const_recv=const_recv)
+        # AUDIT: the role table names roles by the parameter names of today's wrapper ("kts1Phi", "CN0", ...).  "`x` has role R
+        # and binds parameter P: wrong position" is true only while R is itself a parameter of the wrapper (then P != R means
+        # two arguments were exchanged); when the wrapper no longer has a parameter R its parameters were renamed and the
+        # table says nothing -> those entries are left out and reported as undecided.
+        lower = {f_.lower() for f_ in formals}
+        table_k = {e_: r_ for e_, r_ in table.items() if r_ in formals}
+        gone = sorted({r_ for f_, a_ in b.items() for e_, r_ in table.items() if src(a_) == e_ and r_ not in formals})
+        consts_gone = sorted({src(a_) for a_ in b.values() if src(a_).startswith(const_recv + ".")
+                              and src(a_)[len(const_recv) + 1:].lower() not in lower})
+        if gone or consts_gone:
+            chk.ob("E2-argument-role", c0, f"{kname}: roles of {gone + consts_gone}", None,
+                   f"the wrapper {kname} has no parameter named {gone + consts_gone} any more (parameters renamed?): the role "
+                   "table of this rule does not apply to them, not decided", **where)
+        agree.check_roles(chk, U.ADV, "PoloidalAdvection.step", c, formals, table_k,
+                          const_recv=None if consts_gone else const_recv)
         # potential bases from the potential spline, distribution bases from the interpolated distribution
         phi_f = [f for f in b if f.endswith("Phi")]
         pol_f = [f for f in b if f.endswith("Pol")]
@@ -2159,6 +3278,12 @@ def call_site_roles(chk):
                   [f"{f} <- {src(b[f])}" for f in pol_f if src(b[f]).startswith("phi.")]
         okb = len(phi_f) == 5 and len(pol_f) == 5 and all(src(b[f]).startswith("phi.") for f in phi_f) and \
             all(src(b[f]).startswith(pol_recv + ".") for f in pol_f) and pol_recv != "phi"
+        # AUDIT: VIOLATED only for a recognised crossing: a parameter named *Phi receives a part of the object the *Pol
+        # parameters are (mostly) read from, or a *Pol parameter a part of step()'s parameter `phi` - provided `phi` still is
+        # a parameter of step() that is not rebound (otherwise undecided)
+        phi_intact = "phi" in [a_.arg for a_ in fn.args.args] and not _stores_of(fn, "phi")
+        if crossed and not phi_intact:
+            crossed = []
         chk.pat("E2-basis-sources", c0, f"{kname}: phi* <- phi, pol* <- {pol_recv}", okb,
                 "potential knots/degrees/coefficients come from the potential spline, those of the distribution from the "
                 "spline interpolated from f",
@@ -2174,9 +3299,35 @@ def call_site_roles(chk):
     if first_kernel is None:
         chk.ob("E2-interpolate-before-evaluate", fn, what, None, "no kernel call found: not decided", **where)
     elif not interp:
-        chk.ob("E2-interpolate-before-evaluate", fn, what, False,
-               "step() does not interpolate f any more: the kernel evaluates the spline coefficients left over from the "
-               "previous call (another slice of the distribution) at the feet", **where)
+        # AUDIT: "step() does not interpolate f" means the spline the kernel evaluates is stale only if nobody else computes
+        # it: (1) step() hands f / the spline to no other call than the kernels (a helper method may interpolate), and (2)
+        # the callers of step() in the class do not interpolate into that spline before they call it (the responsibility may
+        # have moved to them).  Otherwise UNDECIDED.
+        kernel_ids = {id(x) for x in kernel_calls}
+        helpers = [src(c_.func) for c_ in ast.walk(fn) if isinstance(c_, ast.Call) and id(c_) not in kernel_ids and any(
+            (isinstance(x, ast.Name) and x.id == "f") or src(x) == pol_recv
+            for a_ in list(c_.args) + [k_.value for k_ in c_.keywords] for x in ast.walk(a_))]
+        helpers += [src(c_.func) for c_ in ast.walk(fn) if isinstance(c_, ast.Call) and isinstance(c_.func, ast.Attribute)
+                    and src(c_.func.value) == "self" and id(c_) not in kernel_ids]
+        callers_interp = []
+        for m_ in [st for st in cls.body if isinstance(st, ast.FunctionDef) and st is not fn]:
+            if any(isinstance(x, ast.Call) and src(x.func) == "self.step" for x in ast.walk(m_)) and any(
+                    isinstance(x, ast.Call) and isinstance(x.func, ast.Attribute) and x.func.attr == "compute_interpolant"
+                    and any(src(a_) == pol_recv for a_ in list(x.args) + [k_.value for k_ in x.keywords]) for x in ast.walk(m_)):
+                callers_interp.append(m_.name)
+        if helpers or callers_interp or cls.bases:
+            chk.ob("E2-interpolate-before-evaluate", fn, what, None,
+                   "step() itself does not call compute_interpolant, but "
+                   + (f"hands f / {pol_recv} to {sorted(set(helpers))[:3]}" if helpers else
+                      f"its callers {callers_interp} interpolate into {pol_recv}" if callers_interp else
+                      "the class has base classes whose methods are not examined")
+                   + ": whether the spline is computed from the current f before the kernel evaluates it is not decided", **where)
+        else:
+            chk.ob("E2-interpolate-before-evaluate", fn, what, False,
+                   "step() does not interpolate f any more (no compute_interpolant in step(), f and the spline are handed to "
+                   "nothing but the kernel, no caller of step() in the class interpolates into that spline): the kernel "
+                   "evaluates the spline coefficients left over from the "
+                   "previous call (another slice of the distribution) at the feet", **where)
     else:
         good = und = late = 0
         wrong_dest = []
@@ -2204,10 +3355,18 @@ def call_site_roles(chk):
             chk.ob("E2-interpolate-before-evaluate", interp[0], what, None,
                    "an interpolation is present but its arguments / position are not the recognised ones: not decided", **where)
         elif late:
+            # AUDIT: established above: the call has the recognised arguments (f, the spline whose parts the kernel receives),
+            # stands under no condition and after the first kernel call in the text of step()
             chk.ob("E2-interpolate-before-evaluate", interp[0], what, False,
                    "f is interpolated only after the kernel has evaluated the spline: the feet take the values of the "
                    "previous call's spline", **where)
+        elif _same_object_in_ctor(cls, wrong_dest[0], pol_recv):
+            chk.ob("E2-interpolate-before-evaluate", interp[0], what, None,
+                   f"the interpolant of f is written into `{wrong_dest[0]}`, which the class binds to the same object as "
+                   f"`{pol_recv}` somewhere: not decided", **where)
         else:
+            # AUDIT: `pol_recv` is read off the kernel call itself (the object whose knots/degrees/coefficients it receives);
+            # the destination is another attribute / parameter, and no assignment of the class makes the two names one object
             chk.ob("E2-interpolate-before-evaluate", interp[0], what, False,
                    f"the interpolant of f is written into `{wrong_dest[0]}` while the kernel is handed the coefficients of "
                    f"`{pol_recv}`: the feet take the values of a spline that does not represent the current f", **where)
@@ -2235,6 +3394,9 @@ def iteration_bound(chk, mod):
     bounded = bool(counters & names_in_test) or any(
         isinstance(n, ast.If) and any(isinstance(b, (ast.Break, ast.Return, ast.Raise)) for b in ast.walk(n))
         and ({x.id for x in ast.walk(n.test) if isinstance(x, ast.Name)} & counters) for n in ast.walk(lp))
+    # AUDIT (KNOWN FINDING on today's tree): "nothing bounds the number of passes" = the only `while` of the kernel has no
+    # name in its test that the body increments by a constant once per pass, and no conditional break / return / raise on
+    # such a counter; a bound written in any other way (count-down, helper) is not recognised and would be reported too
     chk.ob("F1-iteration-bounded", lp, "while norm > tol: fixed-point pass", bounded,
            "the number of fixed-point passes is bounded by a counter" if bounded else
            "the loop ends only when two successive iterates agree to `tol`; nothing bounds the number of passes, so for a potential and "
@@ -2425,12 +3587,19 @@ def dispatch_by_cases(chk, mod, w, g, flag="cubic_uniform_splines"):
             calls = []
             follow(wf.body, b, {}, calls)
             if len(calls) != 1:
+                # AUDIT: "returns without calling" - follow() went through every statement of the wrapper on this value of the
+                # flag (it raises Undecided on any statement it does not model) and met no call of the general routine
                 chk.ob("E1-dispatch", wf, what, None if calls else False,
                        f"{len(calls)} calls of {g} on the path with {flag} = {b}: not decided" if calls else
                        f"with {flag} = {b} the wrapper returns without calling {g}: no advection is done for that family of splines",
                        **where)
                 return
             c, args, kws = calls[0]
+            if gf.args.defaults or gf.args.vararg or gf.args.kwarg or gf.args.kwonlyargs:
+                # AUDIT: the arity verdict below counts plain parameters only
+                chk.ob("E1-dispatch", c, what, None, f"{g} has defaults / *args / **kwargs / keyword-only parameters: whether "
+                       "the argument list fits is not decided", **where)
+                return
             if len(args) > len(gformals) or any(k_ not in gformals or k_ in gformals[:len(args)] for k_ in kws) \
                     or len(args) + len(kws) != len(gformals):
                 chk.ob("E1-dispatch", c, what, False,
@@ -2450,8 +3619,12 @@ def dispatch_by_cases(chk, mod, w, g, flag="cubic_uniform_splines"):
         if at == af:
             if at == f and f in wparams:
                 continue
-            if at in wparams:
+            if at in wparams and at in gformals and f in wparams:
+                # AUDIT: both names belong to the vocabulary the two functions share: an argument in the wrong place
                 bad.append(f"the wrapper's `{at}` is handed to parameter `{f}` of {g}")
+            elif at in wparams:
+                und.append(f"the wrapper's `{at}` is handed to parameter `{f}` of {g} (the two functions do not name their "
+                           "parameters alike: renamed?)")
             else:
                 und.append(f"`{f}` receives `{at}` on both paths, which is not the wrapper's parameter of that name")
             continue
@@ -2511,6 +3684,17 @@ def run(chk):
         "the expressions bound to the work parameters (attributes, views of a block, entries of a list) denote pairwise "
         "different storage, which of them plays which part being immaterial; a method that hands stored potential splines to "
         "step() without computing them reads storage that another method fills by interpolation, entry for entry. "
+        "'One step REPLACES f': the array bound to the kernel's output parameter is the array object handed to step() (a "
+        "rebinding through numpy forms that return a copy for some or all inputs - ascontiguousarray, asarray with dtype, "
+        "astype, copy, array - without a copy back is reported). "
+        "Soundness of every VIOLATED verdict: the assumptions it rests on are written next to it (AUDIT comments) and "
+        "checked; in particular the stage rules of the explicit kernel are subordinated to the END-TO-END comparison of f "
+        "with the specification (where intermediates are kept is not part of the property), the rules of the implicit "
+        "kernel require that the iterate is the only state carried between passes (arrays and scalars that a pass writes "
+        "are unknown at the start of a pass), constructs the symbolic execution only approximates turn a difference into "
+        "UNDECIDED, a foot exactly on the radial boundary is not a case (the property excludes it), conditions are "
+        "identified up to positive factors and sign, whole-array fills and element-wise row statements are rewritten as "
+        "the loops they are, the axes of a sweep are read off its subscripts (loop interchange). "
         "Of 'the implicit iteration terminates' only the structural "
         "necessary condition is decided (an iteration bound; absent today: known finding); accuracy orders and rigid-rotation exactness "
         "are numerical consequences and are not decided.")
@@ -2538,6 +3722,25 @@ def run(chk):
         plain = len(ifs) == 1 and isinstance(ifs[0].test, ast.Name) and all(
             len(a) == 1 and isinstance(a[0], ast.Expr) and isinstance(a[0].value, ast.Call) and not a[0].value.keywords
             and not any(isinstance(x, ast.Starred) for x in a[0].value.args) for a in arms)
+        # AUDIT of the engine rule (agree.check_wrapper_dispatch), whose VIOLATED verdicts presuppose that (1) both arms call the
+        # general routine itself (not a specialised copy each), (2) the general routine takes exactly its plain parameters (no
+        # defaults, *args, **kwargs), (3) wrapper and general routine name their parameters alike, so that "`x` is forwarded
+        # to parameter `p`" with x != p means a misplaced argument and not a renamed parameter: every name forwarded is either
+        # the parameter of that name or a name that is a parameter of BOTH functions.  Otherwise the wrapper is followed by
+        # cases (dispatch_by_cases), which states the same guards itself.
+        if plain:
+            gfn = mod.func(g)
+            gform = [a.arg for a in gfn.args.args]
+            wpar = {a.arg for a in wf.args.args}
+            for a in arms:
+                cc = a[0].value
+                if src(cc.func) != g or gfn.args.defaults or gfn.args.vararg or gfn.args.kwarg or gfn.args.kwonlyargs:
+                    plain = False
+                    break
+                for k_, x in enumerate(cc.args):
+                    if k_ < len(gform) and isinstance(x, ast.Name) and x.id != gform[k_] and not x.id.startswith(("cu_", "nu_")) \
+                            and not (x.id in gform and gform[k_] in wpar):
+                        plain = False
         if not plain:
             dispatch_by_cases(chk, mod, w, g)
             continue
